@@ -46,8 +46,7 @@ generality over topologies is an argument, not a verdict), Robin faces (not supp
 from __future__ import annotations
 
 import ast
-import itertools
-from typing import Any, Callable, Optional
+from typing import Optional
 
 import numpy as np
 import sympy as sp
@@ -342,7 +341,7 @@ class Mesh:
         self.cells_of = {f: [(c, s) for f2, c, s in self.half if f2 == f] for f in range(nf)}
         self.boundary = [f for f in range(nf) if len(self.cells_of[f]) == 1]
         self.interior = [f for f in range(nf) if len(self.cells_of[f]) == 2]
-        real = dict(real=True)
+        real: dict = {}
         self.N = oarr([sp.Symbol(f"N{i}_{f}", **real) for i in range(3) for f in range(nf)], (3, nf))
         self.XF = oarr([sp.Symbol(f"XF{i}_{f}", **real) for i in range(3) for f in range(nf)], (3, nf))
         self.XC = oarr([sp.Symbol(f"XC{i}_{c}", **real) for i in range(3) for c in range(self.nc)], (3, self.nc))
@@ -353,7 +352,7 @@ class Mesh:
             for i in range(3):
                 for j in range(3):
                     a, b = min(i, j), max(i, j)
-                    self.K[i, j, c] = sp.Symbol(f"K{a}{b}_{c}", real=True)
+                    self.K[i, j, c] = sp.Symbol(f"K{a}{b}_{c}")
 
     def cell_faces(self) -> SpM:
         return SpM.from_entries((self.nf, self.nc), "csc", [(f, c, sp.Integer(s)) for f, c, s in self.half])
@@ -386,4 +385,2226 @@ class Mesh:
         return Obj("grid", attrs, meths)
 
 
-# @@PART2@@
+# ======================================================================================================
+# the interpreter
+# ======================================================================================================
+
+def _is_num(v) -> bool:
+    return isinstance(v, (int, sp.Expr, np.integer)) and not isinstance(v, (bool, np.bool_))
+
+
+def _as_int(v, what="value") -> int:
+    if isinstance(v, (bool, np.bool_)):
+        return int(v)
+    if isinstance(v, (int, np.integer)):
+        return int(v)
+    if isinstance(v, sp.Integer):
+        return int(v)
+    if isinstance(v, sp.Expr) and v.is_Integer:
+        return int(v)
+    raise Undecided(f"{what} is not a concrete integer: {v!r}")
+
+
+def _as_bool(v, what="condition") -> bool:
+    if isinstance(v, (bool, np.bool_)):
+        return bool(v)
+    if v is sp.true or v is sp.false:
+        return bool(v)
+    if isinstance(v, (int, np.integer, sp.Integer)):
+        return bool(int(v))
+    if isinstance(v, np.ndarray) and v.size == 1:
+        return _as_bool(v.reshape(-1)[0], what)
+    if v is None:
+        return False
+    if isinstance(v, (list, tuple, dict, str)):
+        return bool(v)
+    raise Undecided(f"{what} does not have a truth value that is known on the model mesh ({type(v).__name__})")
+
+
+def _dtype_kind(t) -> Optional[str]:
+    if t is None:
+        return None
+    if t in (int, "int", "i8", "i4") or (isinstance(t, str) and t.startswith("int")):
+        return "int"
+    if t in (bool, "bool"):
+        return "bool"
+    if t in (float, "float", "f8") or (isinstance(t, str) and t.startswith("float")):
+        return "float"
+    if t is object:
+        return "float"
+    raise Undecided(f"dtype {t!r}")
+
+
+CRASH_WORDS = ("broadcast", "shape", "mismatch", "out of bounds", "out of range", "too many indices", "same length", "dimension")
+
+
+class World:
+    """what the interpreter resolves names against: the analysed module, the class, literal attributes of self"""
+
+    def __init__(self, repo, rel: str, clsname: Optional[str], base_inits=()):
+        self.repo, self.rel = repo, rel
+        self.mod = repo.module(rel)
+        self.cls = self.mod.cls(clsname) if clsname else None
+        self.clsname = clsname
+        self.toplevel = {n.name: n for n in self.mod.tree.body if isinstance(n, (ast.FunctionDef, ast.ClassDef))}
+        self.consts: dict = {}
+        try:
+            cm = repo.module(CONSTS)
+            for st in cm.tree.body:
+                if isinstance(st, (ast.Assign, ast.AnnAssign)) and isinstance(getattr(st, "value", None), ast.Constant):
+                    tg = st.targets[0] if isinstance(st, ast.Assign) else st.target
+                    if isinstance(tg, ast.Name):
+                        self.consts[tg.id] = st.value.value
+        except AnchorError:
+            pass
+        # literal attributes assigned in __init__ (own class first, then the listed bases)
+        self.selfattrs: dict = {}
+        inits = []
+        if self.cls is not None and "__init__" in methods(self.cls):
+            inits.append(methods(self.cls)["__init__"])
+        for brel, bname in base_inits:
+            bc = repo.module(brel).cls(bname)
+            if "__init__" in methods(bc):
+                inits.append(methods(bc)["__init__"])
+        for init in reversed(inits):
+            for st in ast.walk(init):
+                tg = val = None
+                if isinstance(st, ast.Assign) and len(st.targets) == 1:
+                    tg, val = st.targets[0], st.value
+                elif isinstance(st, ast.AnnAssign) and st.value is not None:
+                    tg, val = st.target, st.value
+                if isinstance(tg, ast.Attribute) and isinstance(tg.value, ast.Name) and tg.value.id == "self" and isinstance(val, ast.Constant):
+                    self.selfattrs[tg.attr] = val.value
+        self.store_nodes: dict = {}
+        self.matdict: Optional[dict] = None
+        self.steps = 0
+
+    def method(self, name: str) -> Optional[ast.FunctionDef]:
+        if self.cls is None:
+            return None
+        return methods(self.cls).get(name)
+
+
+class Interp:
+    MAXDEPTH = 6
+    MAXSTEPS = 200000
+
+    def __init__(self, world: World, env: Optional[dict] = None, depth: int = 0, where: str = ""):
+        self.w, self.env, self.depth, self.where = world, dict(env or {}), depth, where
+
+    # ---- errors ------------------------------------------------------------------------------------
+    def und(self, msg: str, node: Optional[ast.AST] = None) -> Undecided:
+        ln = getattr(node, "lineno", None)
+        return Undecided(f"{self.w.rel}:{self.where}{':' + str(ln) if ln else ''}: {msg}")
+
+    def nat(self, node, fn, *a, **k):
+        """a native numpy operation on arrays of the real shapes: its index / shape errors are the code's own"""
+        try:
+            return fn(*a, **k)
+        except IndexError as ex:
+            raise ModelCrash(f"IndexError: {ex}", node, self.where)
+        except ValueError as ex:
+            if any(wd in str(ex) for wd in CRASH_WORDS):
+                raise ModelCrash(f"ValueError: {ex}", node, self.where)
+            raise self.und(f"numpy refused `{u(node)[:60]}`: {ex}", node)
+        except (TypeError, AttributeError, ZeroDivisionError, OverflowError) as ex:
+            raise self.und(f"`{u(node)[:60]}` is outside the modelled numpy subset: {type(ex).__name__}: {ex}", node)
+
+    # ---- expressions -------------------------------------------------------------------------------
+    def ev(self, e: ast.expr):
+        self.w.steps += 1
+        if self.w.steps > self.MAXSTEPS:
+            raise self.und("interpretation budget exhausted", e)
+        if isinstance(e, ast.Constant):
+            v = e.value
+            if isinstance(v, float):
+                return sp.nsimplify(v, rational=True)
+            return v
+        if isinstance(e, ast.Name):
+            if e.id in self.env:
+                return self.env[e.id]
+            if e.id in BUILTIN_VALUES:
+                return BUILTIN_VALUES[e.id]
+            if e.id in self.w.toplevel or e.id in MODULE_ROOTS or e.id in PRIMS or e.id in BUILTIN_FUNCS:
+                return Unknown(f"name {e.id} used as a value")
+            raise self.und(f"unknown name {e.id}", e)
+        if isinstance(e, (ast.Tuple, ast.List)):
+            vals = []
+            for x in e.elts:
+                if isinstance(x, ast.Starred):
+                    vals.extend(self.seq(self.ev(x.value), x))
+                else:
+                    vals.append(self.ev(x))
+            return tuple(vals) if isinstance(e, ast.Tuple) else vals
+        if isinstance(e, ast.Dict):
+            return {self.ev(k): self.ev(v) for k, v in zip(e.keys, e.values)}
+        if isinstance(e, ast.UnaryOp):
+            v = self.ev(e.operand)
+            if isinstance(v, Unknown):
+                return v
+            if isinstance(e.op, ast.Not):
+                return not _as_bool(v)
+            if isinstance(e.op, ast.USub):
+                if isinstance(v, SpM):
+                    return v.scale(-1)
+                if isinstance(v, np.ndarray):
+                    return self.nat(e, np.negative, _symb(v) if v.dtype == bool else v)
+                return -v
+            if isinstance(e.op, ast.UAdd):
+                return v
+            if isinstance(e.op, ast.Invert):
+                if isinstance(v, np.ndarray) and v.dtype == bool:
+                    return ~v
+                if isinstance(v, (bool, np.bool_)):
+                    return not v
+                raise self.und(f"~ on {type(v).__name__}", e)
+        if isinstance(e, ast.BoolOp):
+            last = None
+            for x in e.values:
+                last = self.ev(x)
+                if isinstance(last, Unknown):
+                    return last
+                b = _as_bool(last)
+                if isinstance(e.op, ast.And) and not b:
+                    return last
+                if isinstance(e.op, ast.Or) and b:
+                    return last
+            return last
+        if isinstance(e, ast.Compare):
+            l = self.ev(e.left)
+            res = True
+            for op, c in zip(e.ops, e.comparators):
+                r = self.ev(c)
+                res = self.compare(op, l, r, e)
+                if isinstance(res, Unknown):
+                    return res
+                if len(e.ops) > 1 and not _as_bool(res):
+                    return False
+                l = r
+            return res
+        if isinstance(e, ast.BinOp):
+            return self.binop(e.op, self.ev(e.left), self.ev(e.right), e)
+        if isinstance(e, ast.IfExp):
+            t = self.ev(e.test)
+            if isinstance(t, Unknown):
+                raise self.und(f"conditional expression on an unmodelled value", e)
+            return self.ev(e.body if _as_bool(t) else e.orelse)
+        if isinstance(e, ast.Attribute):
+            d = dotted(e)
+            if d is not None:
+                root = d.split(".")[0]
+                if root not in self.env and root in MODULE_ROOTS:
+                    return self.module_value(d, e)
+            return self.getattr(self.ev(e.value), e.attr, e)
+        if isinstance(e, ast.Subscript):
+            return self.getitem(self.ev(e.value), self.index(e.slice), e)
+        if isinstance(e, ast.Call):
+            return self.call(e)
+        if isinstance(e, (ast.ListComp, ast.GeneratorExp)):
+            return self.comp(e)
+        if isinstance(e, ast.JoinedStr):
+            return Unknown("f-string")
+        if isinstance(e, ast.Lambda):
+            return Unknown("lambda")
+        raise self.und(f"{type(e).__name__} `{u(e)[:60]}`", e)
+
+    def module_value(self, d: str, e):
+        parts = d.split(".")
+        if parts[0] in ("np", "numpy"):
+            if d.endswith(".newaxis"):
+                return None
+            if parts[-1] in ("int32", "int64", "int_", "intp"):
+                return int
+            if parts[-1] in ("float64", "float32", "float_", "double"):
+                return float
+            if parts[-1] == "bool_":
+                return bool
+            if parts[-1] == "pi":
+                return sp.pi
+            if parts[-1] == "inf":
+                return sp.oo
+        if parts[0] == "pp" and len(parts) == 2 and parts[1] in self.w.consts:
+            return self.w.consts[parts[1]]
+        return Unknown(d)
+
+    def comp(self, e):
+        if len(e.generators) != 1:
+            raise self.und("nested comprehension", e)
+        g = e.generators[0]
+        out = []
+        for v in self.seq(self.ev(g.iter), g.iter):
+            sub = Interp(self.w, self.env, self.depth, self.where)
+            sub.bind(g.target, v)
+            if all(_as_bool(sub.ev(c)) for c in g.ifs):
+                out.append(sub.ev(e.elt))
+        return out
+
+    # ---- operators ---------------------------------------------------------------------------------
+    def binop(self, op, l, r, e):
+        if isinstance(l, Unknown):
+            return l
+        if isinstance(r, Unknown):
+            return r
+        if isinstance(l, float):
+            l = sp.nsimplify(l, rational=True)
+        if isinstance(r, float):
+            r = sp.nsimplify(r, rational=True)
+        if isinstance(l, SpM) or isinstance(r, SpM):
+            return self.sp_binop(op, l, r, e)
+        if isinstance(l, (list, tuple)) and isinstance(r, (list, tuple)) and isinstance(op, ast.Add):
+            return l + r
+        if isinstance(l, (list, tuple)) and isinstance(op, ast.Mult) and isinstance(r, int):
+            return l * r
+        if isinstance(l, str) or isinstance(r, str):
+            return Unknown("string arithmetic")
+        arr = isinstance(l, np.ndarray) or isinstance(r, np.ndarray)
+        if not arr:
+            if l is None or r is None or isinstance(l, (Obj, dict)) or isinstance(r, (Obj, dict)):
+                raise self.und(f"arithmetic on {type(l).__name__} and {type(r).__name__}", e)
+            pyint = isinstance(l, (int, np.integer)) and isinstance(r, (int, np.integer)) and not isinstance(l, bool) and not isinstance(r, bool)
+            if isinstance(l, (bool, np.bool_)):
+                l = int(l)
+            if isinstance(r, (bool, np.bool_)):
+                r = int(r)
+            try:
+                if isinstance(op, ast.Add):
+                    return l + r
+                if isinstance(op, ast.Sub):
+                    return l - r
+                if isinstance(op, ast.Mult):
+                    return l * r
+                if isinstance(op, ast.Div):
+                    return sp.Rational(int(l), int(r)) if pyint and r != 0 else sp.sympify(l) / sp.sympify(r)
+                if isinstance(op, ast.FloorDiv) and pyint:
+                    return int(l) // int(r)
+                if isinstance(op, ast.Mod) and pyint:
+                    return int(l) % int(r)
+                if isinstance(op, ast.Pow):
+                    return int(l) ** int(r) if pyint and r >= 0 else sp.sympify(l) ** sp.sympify(r)
+            except (TypeError, ZeroDivisionError) as ex:
+                raise self.und(f"`{u(e)[:60]}`: {ex}", e)
+            raise self.und(f"operator {type(op).__name__} on scalars", e)
+        # arrays
+        def prep(v, for_div=False):
+            if isinstance(v, np.ndarray):
+                if v.dtype == bool and not isinstance(op, (ast.BitAnd, ast.BitOr, ast.BitXor)):
+                    return v.astype(int)
+                if for_div and v.dtype != object:
+                    return _symb(v)
+                return v
+            if isinstance(v, (bool, np.bool_)):
+                return int(v)
+            if isinstance(v, (list, tuple)):
+                return self.np_array(v, None, e)
+            return v
+        if isinstance(op, ast.Div):
+            a, b = prep(l, True), prep(r, True)
+            if not isinstance(a, np.ndarray):
+                a = sp.sympify(a)
+            if not isinstance(b, np.ndarray):
+                b = sp.sympify(b)
+            return self.nat(e, np.true_divide, a, b)
+        a, b = prep(l), prep(r)
+        fn = {ast.Add: np.add, ast.Sub: np.subtract, ast.Mult: np.multiply, ast.Pow: np.power, ast.FloorDiv: np.floor_divide,
+              ast.Mod: np.mod, ast.BitAnd: np.logical_and, ast.BitOr: np.logical_or, ast.BitXor: np.logical_xor}.get(type(op))
+        if isinstance(op, ast.MatMult):
+            return self.nat(e, np.dot, _symb(a) if isinstance(a, np.ndarray) else a, _symb(b) if isinstance(b, np.ndarray) else b)
+        if fn is None:
+            raise self.und(f"operator {type(op).__name__} on arrays", e)
+        if isinstance(op, ast.Pow):
+            a = _symb(a) if isinstance(a, np.ndarray) else sp.sympify(a)
+        return self.nat(e, fn, a, b)
+
+    def sp_binop(self, op, l, r, e):
+        if isinstance(op, ast.MatMult):
+            if isinstance(l, SpM):
+                return l.matmul(_symb(r) if isinstance(r, np.ndarray) else r)
+            if isinstance(l, np.ndarray) and l.ndim == 1:
+                return r.transpose().matmul(_symb(l))
+            raise self.und("matrix product with a sparse right operand", e)
+        if isinstance(op, (ast.Add, ast.Sub)) and isinstance(l, SpM) and isinstance(r, SpM):
+            return l.add(r, 1 if isinstance(op, ast.Add) else -1)
+        if isinstance(op, ast.Mult):
+            if isinstance(l, SpM) and isinstance(r, SpM):
+                raise self.und("`*` between two sparse matrices (matrix vs array semantics)", e)
+            m, c = (l, r) if isinstance(l, SpM) else (r, l)
+            if _is_num(c):
+                return m.scale(sp.sympify(c))
+        if isinstance(op, ast.Div) and isinstance(l, SpM) and _is_num(r):
+            return l.scale(1 / sp.sympify(r))
+        raise self.und(f"operator {type(op).__name__} with a sparse matrix: `{u(e)[:60]}`", e)
+
+    def compare(self, op, l, r, e):
+        if isinstance(op, (ast.Is, ast.IsNot)):
+            res = l is r or (l is None and r is None)
+            if not (l is None or r is None or isinstance(l, bool) or isinstance(r, bool)):
+                return Unknown("identity test")
+            return res if isinstance(op, ast.Is) else not res
+        if isinstance(l, Unknown):
+            return l
+        if isinstance(r, Unknown):
+            return r
+        if isinstance(op, (ast.In, ast.NotIn)):
+            if isinstance(r, (dict, list, tuple, str, set, frozenset)):
+                res = l in r
+                return res if isinstance(op, ast.In) else not res
+            raise self.und("membership test on an unmodelled container", e)
+        pyop = {ast.Eq: lambda a, b: a == b, ast.NotEq: lambda a, b: a != b, ast.Lt: lambda a, b: a < b, ast.LtE: lambda a, b: a <= b,
+                ast.Gt: lambda a, b: a > b, ast.GtE: lambda a, b: a >= b}.get(type(op))
+        if pyop is None:
+            raise self.und(f"comparison {type(op).__name__}", e)
+
+        def one(a, b):
+            a = sp.sympify(a) if isinstance(a, (float, np.floating)) else a
+            b = sp.sympify(b) if isinstance(b, (float, np.floating)) else b
+            res_ = pyop(a, b)
+            if isinstance(res_, (bool, np.bool_)):
+                return bool(res_)
+            if res_ is sp.true or res_ is sp.false:
+                return bool(res_)
+            return None
+
+        if isinstance(l, np.ndarray) or isinstance(r, np.ndarray):
+            la = l if isinstance(l, np.ndarray) else np.asarray(l, dtype=object)
+            ra = r if isinstance(r, np.ndarray) else np.asarray(r, dtype=object)
+            if la.dtype != object and ra.dtype != object:
+                return self.nat(e, pyop, la, ra)
+            out = self.nat(e, np.frompyfunc(one, 2, 1), la, ra)
+            flat = np.asarray(out, dtype=object).reshape(-1)
+            if any(v is None for v in flat):
+                return Unknown("comparison of symbolic values")
+            return np.asarray(out, dtype=object).astype(bool)
+        if isinstance(l, (str, tuple, list, type(None))) or isinstance(r, (str, tuple, list, type(None))):
+            return pyop(l, r) if isinstance(op, (ast.Eq, ast.NotEq)) else Unknown("ordering of non-numbers")
+        res = one(l, r)
+        return Unknown("comparison of symbolic values") if res is None else res
+
+    # ---- attributes, subscripts ----------------------------------------------------------------------
+    def getattr(self, base, attr: str, e):
+        if isinstance(base, Unknown):
+            return Unknown(f"{base.why}.{attr}")
+        if isinstance(base, Obj):
+            if attr in base.attrs:
+                return base.attrs[attr]
+            if base.kind == "self" and attr in self.w.selfattrs:
+                return self.w.selfattrs[attr]
+            if attr in base.meths:
+                return Unknown(f"bound method {attr}")
+            raise self.und(f"the model {base.kind} has no attribute `{attr}`", e)
+        if isinstance(base, np.ndarray):
+            if attr == "T":
+                return base.T
+            if attr == "size":
+                return int(base.size)
+            if attr == "shape":
+                return tuple(int(s) for s in base.shape)
+            if attr == "ndim":
+                return int(base.ndim)
+            if attr == "dtype":
+                return Unknown("dtype")
+        if isinstance(base, SpM):
+            if attr == "shape":
+                return base.shape
+            if attr == "T":
+                return base.transpose()
+            if attr in ("data", "indices", "indptr") and base.fmt in ("csr", "csc"):
+                return getattr(base, attr)
+            if attr in ("data", "row", "col") and base.fmt == "coo":
+                return getattr(base, attr)
+            if attr == "data" and base.fmt == "dia":
+                return base.diag.reshape(1, -1)
+            if attr == "nnz":
+                return len(base.entries())
+            if attr == "format":
+                return base.fmt
+        raise self.und(f"attribute `{attr}` of {type(base).__name__}", e)
+
+    def index(self, s: ast.expr):
+        if isinstance(s, ast.Slice):
+            def b(x):
+                if x is None:
+                    return None
+                v = self.ev(x)
+                return None if v is None else _as_int(v, "slice bound")
+            return slice(b(s.lower), b(s.upper), b(s.step))
+        if isinstance(s, ast.Tuple):
+            return tuple(self.index(x) for x in s.elts)
+        return self.ev(s)
+
+    @staticmethod
+    def _fix_index(i):
+        if isinstance(i, sp.Integer):
+            return int(i)
+        if isinstance(i, list) and all(isinstance(t, (int, np.integer, sp.Integer)) for t in i):
+            return [int(t) for t in i]
+        if isinstance(i, np.ndarray) and i.dtype == object:
+            try:
+                return np.array([int(t) for t in i.reshape(-1)], dtype=int).reshape(i.shape)
+            except (TypeError, ValueError):
+                raise Undecided("array indexed with symbolic values")
+        return i
+
+    def getitem(self, base, idx, e):
+        parts = idx if isinstance(idx, tuple) else (idx,)
+        if isinstance(base, Unknown):
+            return base
+        if isinstance(base, dict):
+            if isinstance(idx, Unknown):
+                return idx
+            try:
+                return base[idx]
+            except (KeyError, TypeError):
+                raise self.und(f"key {idx!r} not in the model dictionary", e)
+        if any(isinstance(p, Unknown) for p in parts):
+            return Unknown("indexed with an unmodelled value")
+        if isinstance(base, (list, tuple, str)):
+            if isinstance(idx, (int, np.integer, sp.Integer)):
+                try:
+                    return base[int(idx)]
+                except IndexError as ex:
+                    raise ModelCrash(f"IndexError: {ex}", e, self.where)
+            if isinstance(idx, slice):
+                return base[idx]
+            raise self.und(f"sequence indexed as `{u(e)[:50]}`", e)
+        if isinstance(base, np.ndarray):
+            fixed = tuple(self._fix_index(p) for p in parts)
+            res = self.nat(e, lambda: base[fixed if isinstance(idx, tuple) else fixed[0]])
+            if isinstance(res, np.integer):
+                return int(res)
+            if isinstance(res, np.bool_):
+                return bool(res)
+            return res
+        if isinstance(base, SpM):
+            rows = parts[0]
+            cols = parts[1] if len(parts) > 1 else slice(None)
+            full = lambda s: isinstance(s, slice) and s == slice(None)
+            def ixs(s, n):
+                if isinstance(s, slice):
+                    return list(range(*s.indices(n)))
+                s = self._fix_index(s)
+                if isinstance(s, np.ndarray) and s.dtype == bool:
+                    if s.shape != (n,):
+                        raise ModelCrash(f"boolean index of length {s.shape} on a sparse axis of length {n}", e, self.where)
+                    return list(np.nonzero(s)[0])
+                if isinstance(s, (np.ndarray, list)):
+                    return [int(t) for t in np.asarray(s).reshape(-1)]
+                raise self.und(f"sparse matrix indexed as `{u(e)[:50]}`", e)
+            out = base
+            if not full(rows):
+                out = out.take_rows(ixs(rows, base.shape[0]))
+            if not full(cols):
+                out = out.take_cols(ixs(cols, base.shape[1]))
+            return out if out is not base else base.copy()
+        raise self.und(f"subscript of {type(base).__name__}: `{u(e)[:50]}`", e)
+
+    def setitem(self, base, idx, val, e):
+        if isinstance(base, dict):
+            if isinstance(idx, Unknown):
+                raise self.und("dictionary store under an unmodelled key", e)
+            base[idx] = val
+            if base is self.w.matdict:
+                self.w.store_nodes[idx] = e
+            return
+        parts = idx if isinstance(idx, tuple) else (idx,)
+        if isinstance(base, Unknown):
+            return
+        if isinstance(val, Unknown) or any(isinstance(p, Unknown) for p in parts):
+            raise self.und(f"store of / under an unmodelled value into a modelled array: `{u(e)[:60]}`", e)
+        if isinstance(base, list):
+            base[_as_int(idx)] = val
+            return
+        if isinstance(base, np.ndarray):
+            fixed = tuple(self._fix_index(p) for p in parts)
+            key = fixed if isinstance(idx, tuple) else fixed[0]
+            if base.dtype == object:
+                if isinstance(val, np.ndarray):
+                    val = _symb(val.astype(int) if val.dtype == bool else val)
+                elif isinstance(val, (list, tuple)):
+                    val = self.np_array(val, None, e)
+                    val = _symb(val)
+                else:
+                    val = sp.sympify(_sym_scalar(val)) if not isinstance(val, (bool, np.bool_)) else sp.Integer(int(val))
+            elif base.dtype == bool:
+                if isinstance(val, np.ndarray) and val.dtype != bool:
+                    raise self.und("non-boolean stored into a boolean array", e)
+            else:
+                if isinstance(val, sp.Expr):
+                    val = _as_int(val, "value stored into an integer array")
+                elif isinstance(val, np.ndarray) and val.dtype == object:
+                    val = np.array([_as_int(t, "value stored into an integer array") for t in val.reshape(-1)], dtype=int).reshape(val.shape)
+
+            def do():
+                base[key] = val
+            self.nat(e, do)
+            return
+        raise self.und(f"item assignment on {type(base).__name__}", e)
+
+    # ---- sequences -----------------------------------------------------------------------------------
+    def seq(self, v, e) -> list:
+        if isinstance(v, np.ndarray):
+            out = []
+            for i in range(v.shape[0]):
+                t = v[i]
+                out.append(int(t) if isinstance(t, np.integer) else bool(t) if isinstance(t, np.bool_) else t)
+            return out
+        if isinstance(v, (list, tuple)):
+            return list(v)
+        if isinstance(v, range):
+            return list(v)
+        if isinstance(v, dict):
+            return list(v.keys())
+        raise self.und(f"iteration over {type(v).__name__}", e)
+
+    def bind(self, target: ast.expr, value, e=None):
+        if isinstance(target, ast.Name):
+            self.env[target.id] = value
+            return
+        if isinstance(target, (ast.Tuple, ast.List)):
+            if isinstance(value, Unknown):
+                for t in target.elts:
+                    self.bind(t.value if isinstance(t, ast.Starred) else t, value)
+                return
+            vals = self.seq(value, target)
+            star = [i for i, t in enumerate(target.elts) if isinstance(t, ast.Starred)]
+            if star:
+                i = star[0]
+                after = len(target.elts) - i - 1
+                if len(vals) < len(target.elts) - 1:
+                    raise self.und(f"cannot unpack {len(vals)} values into `{u(target)}`", target)
+                for t, v in zip(target.elts[:i], vals[:i]):
+                    self.bind(t, v)
+                self.bind(target.elts[i].value, vals[i:len(vals) - after])
+                for t, v in zip(target.elts[i + 1:], vals[len(vals) - after:]):
+                    self.bind(t, v)
+                return
+            if len(vals) != len(target.elts):
+                raise self.und(f"cannot unpack {len(vals)} values into `{u(target)}`", target)
+            for t, v in zip(target.elts, vals):
+                self.bind(t, v)
+            return
+        if isinstance(target, ast.Subscript):
+            self.setitem(self.ev(target.value), self.index(target.slice), value, target)
+            return
+        if isinstance(target, ast.Attribute):
+            base = self.ev(target.value)
+            if isinstance(base, Obj):
+                base.attrs[target.attr] = value
+                return
+            if isinstance(base, SpM) and target.attr == "data" and base.fmt != "dia":
+                base.data = _symb(value) if isinstance(value, np.ndarray) else value
+                return
+            raise self.und(f"attribute store `{u(target)}`", target)
+        raise self.und(f"assignment target `{u(target)[:50]}`", target)
+
+
+    # ---- calls ---------------------------------------------------------------------------------------
+    def args_of(self, e: ast.Call):
+        args = []
+        for a in e.args:
+            if isinstance(a, ast.Starred):
+                args.extend(self.seq(self.ev(a.value), a))
+            else:
+                args.append(self.ev(a))
+        kw = {}
+        for k in e.keywords:
+            if k.arg is None:
+                v = self.ev(k.value)
+                if not isinstance(v, dict):
+                    raise self.und("** of an unmodelled value", e)
+                kw.update(v)
+            else:
+                kw[k.arg] = self.ev(k.value)
+        return args, kw
+
+    def call(self, e: ast.Call):
+        f = e.func
+        d = dotted(f)
+        # ---- plain names
+        if isinstance(f, ast.Name) and f.id not in self.env:
+            nm = f.id
+            if nm in BUILTIN_FUNCS:
+                args, kw = self.args_of(e)
+                return BUILTIN_FUNCS[nm](self, e, args, kw)
+            if nm in PRIMS:
+                args, kw = self.args_of(e)
+                return PRIMS[nm](self, e, args, kw)
+            top = self.w.toplevel.get(nm)
+            if isinstance(top, ast.FunctionDef):
+                args, kw = self.args_of(e)
+                return self.invoke(top, args, kw, None, e)
+            if isinstance(top, ast.ClassDef):
+                args, kw = self.args_of(e)
+                return self.construct(top, args, kw, e)
+            raise self.und(f"call of unknown function {nm}", e)
+        if isinstance(f, ast.Name):
+            callee = self.env[f.id]
+            args, kw = self.args_of(e)
+            if isinstance(callee, Closure):
+                return callee.interp.invoke(callee.fn, args, kw, None, e, closure_env=callee.env)
+            if isinstance(callee, Unknown):
+                return Unknown(f"call of {f.id}")
+            raise self.und(f"call of local value {f.id}", e)
+        if not isinstance(f, ast.Attribute):
+            raise self.und(f"call `{u(e)[:60]}`", e)
+        root = d.split(".")[0] if d else None
+        # ---- module functions
+        if root is not None and root not in self.env and root in MODULE_ROOTS:
+            args, kw = self.args_of(e)
+            return self.module_call(d, e, args, kw)
+        # ---- class-level call  Cls.method(...)
+        if root is not None and root not in self.env and root == self.w.clsname and len(d.split(".")) == 2:
+            fn = self.w.method(f.attr)
+            if fn is None:
+                raise self.und(f"{d} is not a method of the analysed class", e)
+            args, kw = self.args_of(e)
+            static = any(u(dec) == "staticmethod" for dec in fn.decorator_list)
+            return self.invoke(fn, args, kw, None if static else Unknown("cls"), e)
+        # ---- `np.logical_or.reduce` style is a module call (handled above); everything else is a method of a value
+        base = self.ev(f.value)
+        args, kw = self.args_of(e)
+        return self.method_call(base, f.attr, args, kw, e)
+
+    def construct(self, cls: ast.ClassDef, args, kw, e):
+        fields = [st.target.id for st in cls.body if isinstance(st, ast.AnnAssign) and isinstance(st.target, ast.Name)]
+        is_dc = any("dataclass" in u(dec) for dec in cls.decorator_list)
+        if not is_dc or "__init__" in methods(cls):
+            raise self.und(f"construction of class {cls.name}", e)
+        if len(args) > len(fields):
+            raise self.und(f"too many arguments for dataclass {cls.name}", e)
+        vals = dict(zip(fields, args))
+        for k, v in kw.items():
+            if k not in fields or k in vals:
+                raise self.und(f"argument {k} of dataclass {cls.name}", e)
+            vals[k] = v
+        missing = [f_ for f_ in fields if f_ not in vals]
+        if missing:
+            raise self.und(f"dataclass {cls.name} constructed without {missing}", e)
+        return Obj(cls.name, vals)
+
+    def invoke(self, fn: ast.FunctionDef, args, kw, selfobj, e, closure_env: Optional[dict] = None):
+        if self.depth >= self.MAXDEPTH:
+            raise self.und("helper nesting too deep", e)
+        a = fn.args
+        if a.vararg or a.kwarg or a.posonlyargs:
+            raise self.und(f"signature of {fn.name}", e)
+        params = [p.arg for p in a.args]
+        env: dict = dict(closure_env or {})
+        if selfobj is not None:
+            if not params:
+                raise self.und(f"{fn.name} has no receiver parameter", e)
+            env[params[0]] = selfobj
+            params = params[1:]
+        if len(args) > len(params):
+            raise self.und(f"too many arguments for {fn.name}", e)
+        bound = dict(zip(params, args))
+        konly = [p.arg for p in a.kwonlyargs]
+        for k, v in kw.items():
+            if (k not in params and k not in konly) or k in bound:
+                raise self.und(f"keyword {k} of {fn.name}", e)
+            bound[k] = v
+        sub = Interp(self.w, env, self.depth + 1, fn.name if self.w.cls is None or fn.name not in methods(self.w.cls) else f"{self.w.clsname}.{fn.name}")
+        defaults = dict(zip(params[len(params) - len(a.defaults):], a.defaults))
+        for p, dflt in zip(konly, a.kw_defaults):
+            if dflt is not None:
+                defaults[p] = dflt
+        for p in params + konly:
+            if p in bound:
+                sub.env[p] = bound[p]
+            elif p in defaults:
+                sub.env[p] = sub.ev(defaults[p])
+            else:
+                raise self.und(f"{fn.name} called without `{p}`", e)
+        return sub.run(fn)
+
+    def run(self, fn: ast.FunctionDef):
+        try:
+            self.exec(body_nodoc(fn))
+        except _Return as r:
+            return r.value
+        return None
+
+    def method_call(self, base, nm: str, args, kw, e):
+        if isinstance(base, Unknown):
+            return Unknown(f"{base.why}.{nm}()")
+        if isinstance(base, Obj):
+            if base.kind == "self":
+                fn = self.w.method(nm)
+                if fn is None:
+                    raise self.und(f"self.{nm} is not defined in {self.w.clsname} (inherited methods are not interpreted)", e)
+                static = any(u(dec) == "staticmethod" for dec in fn.decorator_list)
+                return self.invoke(fn, args, kw, None if static else base, e)
+            if nm in base.meths:
+                try:
+                    return base.meths[nm](*args, **kw)
+                except TypeError as ex:
+                    raise self.und(f"model method {nm}: {ex}", e)
+            if nm == "copy" and not args:
+                return Obj(base.kind, {k: (v.copy() if isinstance(v, (np.ndarray, SpM)) else v) for k, v in base.attrs.items()}, base.meths)
+            raise self.und(f"the model {base.kind} has no method `{nm}`", e)
+        if _has_unknown(list(args) + list(kw.values())):
+            return Unknown(f"{nm}() with an unmodelled argument")
+        if isinstance(base, dict):
+            if nm == "get":
+                return base.get(args[0], args[1] if len(args) > 1 else kw.get("default"))
+            if nm in ("keys", "values", "items"):
+                return list(getattr(base, nm)())
+            if nm == "update" and len(args) == 1 and isinstance(args[0], dict):
+                for k_, v_ in args[0].items():
+                    self.setitem(base, k_, v_, e)
+                return None
+            if nm == "copy":
+                return dict(base)
+            raise self.und(f"dict.{nm}", e)
+        if isinstance(base, list):
+            if nm == "append":
+                base.append(args[0])
+                return None
+            if nm == "extend":
+                base.extend(self.seq(args[0], e))
+                return None
+            raise self.und(f"list.{nm}", e)
+        if isinstance(base, np.ndarray):
+            return self.nd_method(base, nm, args, kw, e)
+        if isinstance(base, SpM):
+            return self.sp_method(base, nm, args, kw, e)
+        raise self.und(f"method `{nm}` of {type(base).__name__}", e)
+
+    # ---- ndarray methods -----------------------------------------------------------------------------
+    def nd_method(self, a: np.ndarray, nm: str, args, kw, e):
+        def order(v):
+            if v is None:
+                return "C"
+            if isinstance(v, str) and v.upper() in ("C", "F"):
+                return v.upper()
+            raise self.und(f"order {v!r}", e)
+        if nm == "copy":
+            return a.copy()
+        if nm in ("ravel", "flatten"):
+            return self.nat(e, a.ravel, order(args[0] if args else kw.get("order"))).copy() if nm == "flatten" else self.nat(e, a.ravel, order(args[0] if args else kw.get("order")))
+        if nm == "reshape":
+            shp = args[0] if len(args) == 1 else tuple(args)
+            shp = tuple(_as_int(s) for s in shp) if isinstance(shp, (tuple, list)) else (_as_int(shp),)
+            return self.nat(e, lambda: a.reshape(shp, order=order(kw.get("order"))))
+        if nm in ("sum", "prod", "any", "all", "max", "min", "cumsum"):
+            return NP[f"np.{nm}"](self, e, [a] + list(args), kw)
+        if nm == "astype":
+            k = _dtype_kind(args[0] if args else kw.get("dtype"))
+            if k == "bool":
+                if a.dtype == object:
+                    return np.array([_as_bool(t) for t in a.reshape(-1)], dtype=bool).reshape(a.shape)
+                return a.astype(bool)
+            if k == "int":
+                if a.dtype == object:
+                    return np.array([_as_int(t) for t in a.reshape(-1)], dtype=int).reshape(a.shape)
+                return a.astype(int)
+            return _symb(a.astype(int) if a.dtype == bool else a).copy()
+        if nm == "transpose" and not args:
+            return a.T
+        if nm == "nonzero" and a.dtype != object:
+            return tuple(a.nonzero())
+        if nm == "tolist" and a.dtype != object:
+            return a.tolist()
+        if nm == "squeeze":
+            return a.squeeze()
+        if nm == "argsort" and a.dtype != object:
+            return a.argsort(kind="stable")
+        if nm == "dot":
+            return self.binop(ast.MatMult(), a, args[0], e)
+        if nm == "fill":
+            a[...] = sp.sympify(_sym_scalar(args[0])) if a.dtype == object else args[0]
+            return None
+        if nm == "item" and a.size == 1:
+            return a.reshape(-1)[0]
+        raise self.und(f"ndarray.{nm}", e)
+
+    # ---- sparse methods ------------------------------------------------------------------------------
+    def sp_method(self, m: SpM, nm: str, args, kw, e):
+        if nm in ("tocsr", "tocsc", "tocoo", "todia"):
+            return m.to(nm[2:])
+        if nm == "asformat":
+            return m.to(args[0])
+        if nm == "copy":
+            return m.copy()
+        if nm == "transpose":
+            return m.transpose()
+        if nm == "diagonal" and not args:
+            return m.diagonal()
+        if nm in ("toarray", "todense"):
+            out = np.empty(m.shape, dtype=object)
+            out[...] = sp.Integer(0)
+            for (i, j), v in m.todict().items():
+                out[i, j] = v
+            return out
+        if nm == "dot":
+            return self.sp_binop(ast.MatMult(), m, args[0], e)
+        if nm == "eliminate_zeros":
+            keep = [(i, j, v) for i, j, v in m.entries() if not (v == 0)]
+            new = SpM.from_entries(m.shape, m.fmt, keep)
+            m.__dict__.update(new.__dict__)
+            return None
+        if nm == "sum_duplicates":
+            new = m.to("csr").to(m.fmt) if m.fmt == "coo" else m
+            m.__dict__.update(new.__dict__)
+            return None
+        if nm == "getnnz":
+            return len(m.entries())
+        if nm == "multiply" and len(args) == 1 and _is_num(args[0]):
+            return m.scale(sp.sympify(args[0]))
+        if nm == "sum":
+            ax = args[0] if args else kw.get("axis")
+            d = m.todict()
+            if ax is None:
+                return sum(d.values(), sp.Integer(0))
+            ax = _as_int(ax)
+            out = [sp.Integer(0)] * m.shape[1 - ax]
+            for (i, j), v in d.items():
+                out[j if ax == 0 else i] += v
+            return oarr(out)
+        raise self.und(f"sparse method `{nm}`", e)
+
+    # ---- module-level calls ----------------------------------------------------------------------------
+    def module_call(self, d: str, e, args, kw):
+        parts = d.split(".")
+        if parts[0] == "warnings":
+            return None
+        if _has_unknown(list(args) + list(kw.values())):
+            return Unknown(f"{d}() with an unmodelled argument")
+        if parts[0] in ("np", "numpy"):
+            key = "np." + ".".join(parts[1:])
+            if key in NP:
+                return NP[key](self, e, args, kw)
+            raise self.und(f"{d} is not in the modelled numpy subset", e)
+        if parts[0] in ("sps", "scipy"):
+            key = "sps." + parts[-1]
+            if key in SPS:
+                return SPS[key](self, e, args, kw)
+            raise self.und(f"{d} is not in the modelled scipy.sparse subset", e)
+        if parts[0] == "pp":
+            if parts[-1] in PRIMS:
+                return PRIMS[parts[-1]](self, e, args, kw)
+            raise self.und(f"{d} is not a modelled porepy helper", e)
+        raise self.und(f"call {d}", e)
+
+    def np_array(self, x, dtype, e):
+        k = _dtype_kind(dtype)
+        if isinstance(x, np.ndarray):
+            if k == "int":
+                return self.nd_method(x, "astype", [int], {}, e)
+            if k == "bool":
+                return self.nd_method(x, "astype", [bool], {}, e)
+            return x.copy()
+
+        def leaves(v):
+            if isinstance(v, (list, tuple)):
+                for t in v:
+                    yield from leaves(t)
+            elif isinstance(v, np.ndarray):
+                yield from v.reshape(-1)
+            else:
+                yield v
+        lv = list(leaves(x))
+        if any(isinstance(t, Unknown) for t in lv):
+            return Unknown("array of unmodelled values")
+        if k == "int" or (k is None and lv and all(isinstance(t, (int, np.integer)) and not isinstance(t, (bool, np.bool_)) for t in lv)):
+            return self.nat(e, lambda: np.array(x if not isinstance(x, (sp.Expr,)) else int(x), dtype=int))
+        if k == "bool" or (k is None and lv and all(isinstance(t, (bool, np.bool_)) for t in lv)):
+            return self.nat(e, lambda: np.array(x, dtype=bool))
+        if not lv and k is None:
+            return np.empty(np.array(x, dtype=object).shape, dtype=object)
+
+        def conv(v):
+            if isinstance(v, (list, tuple)):
+                return [conv(t) for t in v]
+            if isinstance(v, np.ndarray):
+                return _symb(v.astype(int) if v.dtype == bool else v)
+            return sp.sympify(_sym_scalar(v)) if not isinstance(v, (bool, np.bool_)) else sp.Integer(int(v))
+        c = conv(x)
+        if isinstance(c, sp.Expr):
+            out = np.empty((), dtype=object)
+            out[()] = c
+            return out
+        arr = self.nat(e, lambda: np.array(c, dtype=object))
+        if sum(1 for _ in leaves(c)) != arr.size:
+            raise self.und("ragged array construction", e)
+        return arr
+
+    # ---- statements ----------------------------------------------------------------------------------
+    def exec(self, body: list) -> None:
+        for st in body:
+            self.stmt(st)
+
+    def stmt(self, st: ast.stmt) -> None:
+        self.w.steps += 1
+        if isinstance(st, ast.Expr):
+            if isinstance(st.value, ast.Constant):
+                return
+            self.ev(st.value)
+            return
+        if isinstance(st, ast.Assign):
+            val = self.ev(st.value)
+            for tg in st.targets:
+                self.bind(tg, val)
+            return
+        if isinstance(st, ast.AnnAssign):
+            if st.value is not None:
+                self.bind(st.target, self.ev(st.value))
+            return
+        if isinstance(st, ast.AugAssign):
+            tg = st.target
+            cur = self.ev(ast.copy_location(_as_load(tg), tg))
+            rhs = self.ev(st.value)
+            if isinstance(cur, np.ndarray) and not isinstance(rhs, Unknown) and not isinstance(rhs, SpM):
+                # in place: aliases of the array see the update (numpy semantics)
+                new = self.binop(st.op, cur, rhs, st)
+                if isinstance(new, np.ndarray) and new.shape == cur.shape and (cur.dtype == object or new.dtype == cur.dtype):
+                    cur[...] = new
+                    return
+                raise ModelCrash(f"in-place `{u(st)[:60]}` changes shape {cur.shape} -> {getattr(new, 'shape', None)} or dtype", st, self.where) \
+                    if isinstance(new, np.ndarray) and new.shape != cur.shape else self.und(f"in-place update `{u(st)[:60]}`", st)
+            self.bind(tg, self.binop(st.op, cur, rhs, st))
+            return
+        if isinstance(st, ast.If):
+            t = self.ev(st.test)
+            if isinstance(t, Unknown):
+                raise self.und(f"branch on a value that is not known on the model mesh: `{u(st.test)[:70]}`", st)
+            self.exec(st.body if _as_bool(t) else st.orelse)
+            return
+        if isinstance(st, ast.For):
+            for v in self.seq(self.iter_value(st.iter), st.iter):
+                self.bind(st.target, v)
+                try:
+                    self.exec(st.body)
+                except _Break:
+                    break
+                except _Continue:
+                    continue
+            else:
+                self.exec(st.orelse)
+            return
+        if isinstance(st, ast.Return):
+            raise _Return(self.ev(st.value) if st.value is not None else None)
+        if isinstance(st, ast.Raise):
+            raise self.und(f"the interpreted code raises on the model mesh: `{u(st)[:80]}`", st)
+        if isinstance(st, ast.Assert):
+            t = self.ev(st.test)
+            if not isinstance(t, Unknown) and not _as_bool(t):
+                raise self.und(f"assertion fails on the model mesh: `{u(st.test)[:70]}`", st)
+            return
+        if isinstance(st, ast.Pass):
+            return
+        if isinstance(st, ast.Break):
+            raise _Break()
+        if isinstance(st, ast.Continue):
+            raise _Continue()
+        if isinstance(st, ast.FunctionDef):
+            self.env[st.name] = Closure(st, self.env, self)
+            return
+        if isinstance(st, (ast.Import, ast.ImportFrom)):
+            return
+        if isinstance(st, ast.Delete):
+            for t in st.targets:
+                if isinstance(t, ast.Name):
+                    self.env.pop(t.id, None)
+                else:
+                    raise self.und("del of a non-name", st)
+            return
+        raise self.und(f"statement {type(st).__name__}", st)
+
+    def iter_value(self, it: ast.expr):
+        return self.ev(it)
+
+
+def _has_unknown(v) -> bool:
+    if isinstance(v, Unknown):
+        return True
+    if isinstance(v, (list, tuple)):
+        return any(_has_unknown(t) for t in v)
+    return False
+
+
+class _Break(Exception):
+    pass
+
+
+class _Continue(Exception):
+    pass
+
+
+def _as_load(t: ast.expr) -> ast.expr:
+    import copy
+    t2 = copy.deepcopy(t)
+    for n in ast.walk(t2):
+        if hasattr(n, "ctx"):
+            n.ctx = ast.Load()
+    return t2
+
+
+# ======================================================================================================
+# tables: builtins, numpy, scipy.sparse, porepy helpers (the trusted semantics)
+# ======================================================================================================
+
+MODULE_ROOTS = {"np", "numpy", "sps", "scipy", "pp", "warnings"}
+BUILTIN_VALUES = {"int": int, "float": float, "bool": bool, "object": object, "True": True, "False": False, "None": None,
+                  "DeprecationWarning": "DeprecationWarning", "UserWarning": "UserWarning", "NotImplementedError": "NotImplementedError",
+                  "ValueError": "ValueError", "RuntimeError": "RuntimeError", "str": str}
+
+
+def _b_len(it, e, a, k):
+    v = a[0]
+    if isinstance(v, np.ndarray):
+        return int(v.shape[0])
+    if isinstance(v, (list, tuple, dict, str, range)):
+        return len(v)
+    if isinstance(v, Unknown):
+        return v
+    raise it.und("len of an unmodelled value", e)
+
+
+def _b_range(it, e, a, k):
+    return list(range(*[_as_int(x, "range bound") for x in a]))
+
+
+def _b_allany(fn):
+    def f(it, e, a, k):
+        v = a[0]
+        if isinstance(v, Unknown):
+            return v
+        vals = it.seq(v, e)
+        if any(isinstance(t, Unknown) for t in vals):
+            return Unknown("all/any over unmodelled values")
+        return fn(_as_bool(t) for t in vals)
+    return f
+
+
+def _b_sum(it, e, a, k):
+    vals = it.seq(a[0], e)
+    acc = a[1] if len(a) > 1 else 0
+    for v in vals:
+        acc = it.binop(ast.Add(), acc, v, e)
+    return acc
+
+
+def _b_minmax(fn):
+    def f(it, e, a, k):
+        vals = it.seq(a[0], e) if len(a) == 1 else list(a)
+        if all(isinstance(v, (int, np.integer, sp.Integer)) for v in vals):
+            return fn(int(v) for v in vals)
+        return Unknown("min/max of symbolic values")
+    return f
+
+
+def _b_hasattr(it, e, a, k):
+    o, nm = a
+    if isinstance(o, Obj):
+        return nm in o.attrs or nm in o.meths or (o.kind == "self" and (nm in it.w.selfattrs or it.w.method(nm) is not None))
+    raise it.und("hasattr on an unmodelled value", e)
+
+
+def _b_getattr(it, e, a, k):
+    o, nm = a[0], a[1]
+    if isinstance(o, Obj) and nm not in o.attrs and len(a) > 2 and not (o.kind == "self" and nm in it.w.selfattrs):
+        return a[2]
+    return it.getattr(o, nm, e)
+
+
+def _b_int(it, e, a, k):
+    v = a[0]
+    if isinstance(v, Unknown):
+        return v
+    return _as_int(v)
+
+
+BUILTIN_FUNCS: dict = {
+    "len": _b_len, "range": _b_range, "all": _b_allany(all), "any": _b_allany(any), "sum": _b_sum, "min": _b_minmax(min), "max": _b_minmax(max),
+    "hasattr": _b_hasattr, "getattr": _b_getattr, "int": _b_int,
+    "float": lambda it, e, a, k: sp.sympify(_sym_scalar(a[0])) if not isinstance(a[0], Unknown) else a[0],
+    "bool": lambda it, e, a, k: a[0] if isinstance(a[0], Unknown) else _as_bool(a[0]),
+    "abs": lambda it, e, a, k: a[0] if isinstance(a[0], Unknown) else (abs(a[0]) if not isinstance(a[0], np.ndarray) else NP["np.abs"](it, e, a, k)),
+    "list": lambda it, e, a, k: list(it.seq(a[0], e)) if a else [],
+    "tuple": lambda it, e, a, k: tuple(it.seq(a[0], e)) if a else (),
+    "dict": lambda it, e, a, k: dict(a[0]) if a else dict(k),
+    "zip": lambda it, e, a, k: [tuple(t) for t in zip(*[it.seq(x, e) for x in a])],
+    "enumerate": lambda it, e, a, k: [(i, v) for i, v in enumerate(it.seq(a[0], e), *( [_as_int(a[1])] if len(a) > 1 else []))],
+    "reversed": lambda it, e, a, k: list(reversed(it.seq(a[0], e))),
+    "sorted": lambda it, e, a, k: sorted(_as_int(v) for v in it.seq(a[0], e)),
+    "set": lambda it, e, a, k: set(_as_int(v) if not isinstance(v, (str, tuple)) else v for v in it.seq(a[0], e)) if a else set(),
+    "frozenset": lambda it, e, a, k: frozenset(_as_int(v) if not isinstance(v, (str, tuple)) else v for v in it.seq(a[0], e)) if a else frozenset(),
+    "print": lambda it, e, a, k: None,
+    "cast": lambda it, e, a, k: a[1],
+    "isinstance": lambda it, e, a, k: Unknown("isinstance"),
+    "str": lambda it, e, a, k: Unknown("str()"),
+}
+
+
+# ---- numpy -------------------------------------------------------------------------------------------
+
+def _np_zeros(fill):
+    def f(it, e, a, k):
+        shp = a[0]
+        shp = tuple(_as_int(s) for s in shp) if isinstance(shp, (tuple, list)) else (_as_int(shp),)
+        kind = _dtype_kind(a[1] if len(a) > 1 else k.get("dtype"))
+        if kind == "int":
+            return np.full(shp, fill, dtype=int)
+        if kind == "bool":
+            return np.full(shp, bool(fill), dtype=bool)
+        out = np.empty(shp, dtype=object)
+        out[...] = sp.Integer(fill)
+        return out
+    return f
+
+
+def _np_like(fill):
+    def f(it, e, a, k):
+        src = a[0]
+        if not isinstance(src, np.ndarray):
+            raise it.und("zeros_like / ones_like of a non-array", e)
+        kind = _dtype_kind(k.get("dtype")) or ("int" if src.dtype.kind in "iu" else "bool" if src.dtype == bool else "float")
+        return _np_zeros(fill)(it, e, [src.shape], {"dtype": {"int": int, "bool": bool, "float": float}[kind]})
+    return f
+
+
+def _arrs(it, e, seq):
+    """list of arrays for concatenation: everything symbolic unless all are integer (or all boolean) arrays"""
+    parts = []
+    for p in it.seq(seq, e) if not isinstance(seq, np.ndarray) else [seq]:
+        if isinstance(p, np.ndarray):
+            parts.append(p)
+        elif isinstance(p, (list, tuple)):
+            parts.append(it.np_array(p, None, e))
+        else:
+            parts.append(it.np_array([p], None, e))
+    kinds = {("o" if p.dtype == object else "b" if p.dtype == bool else "i") for p in parts}
+    if "o" in kinds:
+        parts = [_symb(p.astype(int) if p.dtype == bool else p) for p in parts]
+    elif kinds == {"b", "i"}:
+        parts = [p.astype(int) for p in parts]
+    return parts
+
+
+def _np_cat(fn):
+    def f(it, e, a, k):
+        parts = _arrs(it, e, a[0])
+        ax = k.get("axis", a[1] if len(a) > 1 else None)
+        if ax is not None:
+            return it.nat(e, fn, parts, axis=_as_int(ax))
+        return it.nat(e, fn, parts)
+    return f
+
+
+def _np_reduce(fn, symbolic_ok=True):
+    def f(it, e, a, k):
+        x = a[0]
+        if isinstance(x, (list, tuple)):
+            x = it.np_array(x, None, e)
+        if not isinstance(x, np.ndarray):
+            return x
+        ax = k.get("axis", a[1] if len(a) > 1 else None)
+        ax = None if ax is None else _as_int(ax)
+        if x.dtype == bool and fn in (np.sum, np.cumsum, np.prod):
+            x = x.astype(int)
+        if x.dtype == object and not symbolic_ok:
+            try:
+                x = np.array([_as_int(t) for t in x.reshape(-1)], dtype=int).reshape(x.shape)
+            except Undecided:
+                return Unknown(f"{fn.__name__} of symbolic values")
+        res = it.nat(e, fn, x, axis=ax)
+        if isinstance(res, np.integer):
+            return int(res)
+        if isinstance(res, np.bool_):
+            return bool(res)
+        if x.dtype == object and not isinstance(res, np.ndarray) and isinstance(res, int):
+            return sp.Integer(res)
+        return res
+    return f
+
+
+def _np_truth(fn):
+    def f(it, e, a, k):
+        x = a[0]
+        if isinstance(x, (bool, np.bool_)):
+            return bool(x)
+        if isinstance(x, (list, tuple)):
+            x = it.np_array(x, None, e)
+        if isinstance(x, np.ndarray) and x.dtype == object:
+            x = np.array([_as_bool(t) for t in x.reshape(-1)], dtype=bool).reshape(x.shape)
+        if not isinstance(x, np.ndarray):
+            return _as_bool(x)
+        ax = k.get("axis", a[1] if len(a) > 1 else None)
+        res = it.nat(e, fn, x, axis=None if ax is None else _as_int(ax))
+        return bool(res) if isinstance(res, np.bool_) else res
+    return f
+
+
+def _boolarr(it, e, x):
+    if isinstance(x, (bool, np.bool_)):
+        return bool(x)
+    if isinstance(x, (list, tuple)):
+        x = it.np_array(x, None, e)
+    if isinstance(x, np.ndarray):
+        if x.dtype == bool:
+            return x
+        if x.dtype == object:
+            return np.array([_as_bool(t) for t in x.reshape(-1)], dtype=bool).reshape(x.shape)
+        return x.astype(bool)
+    return _as_bool(x)
+
+
+def _np_logical(fn):
+    def f(it, e, a, k):
+        res = it.nat(e, fn, *[_boolarr(it, e, x) for x in a])
+        return bool(res) if isinstance(res, np.bool_) else res
+    return f
+
+
+def _np_logical_reduce(fn):
+    def f(it, e, a, k):
+        parts = [_boolarr(it, e, x) for x in it.seq(a[0], e)] if not isinstance(a[0], np.ndarray) else _boolarr(it, e, a[0])
+        ax = _as_int(k.get("axis", a[1] if len(a) > 1 else 0))
+        res = it.nat(e, lambda: fn.reduce(np.array(parts), axis=ax))
+        return bool(res) if isinstance(res, np.bool_) else res
+    return f
+
+
+def _np_elementwise(pyf):
+    def f(it, e, a, k):
+        xs = [(_symb(x.astype(int) if x.dtype == bool else x) if isinstance(x, np.ndarray) else sp.sympify(_sym_scalar(x))) for x in a]
+        if not any(isinstance(x, np.ndarray) for x in xs):
+            return pyf(*xs)
+        return it.nat(e, np.frompyfunc(pyf, len(xs), 1), *xs)
+    return f
+
+
+def _np_norm(it, e, a, k):
+    x = a[0]
+    o = a[1] if len(a) > 1 else k.get("ord")
+    ax = k.get("axis", a[2] if len(a) > 2 else None)
+    if o not in (None, 2) or not isinstance(x, np.ndarray):
+        raise it.und("np.linalg.norm other than the 2-norm of an array", e)
+    sq = it.nat(e, np.sum, _symb(x) ** 2, axis=None if ax is None else _as_int(ax))
+    return np.frompyfunc(sp.sqrt, 1, 1)(sq) if isinstance(sq, np.ndarray) else sp.sqrt(sq)
+
+
+def _np_bincount(it, e, a, k):
+    x = a[0]
+    w = k.get("weights", a[1] if len(a) > 1 else None)
+    ml = _as_int(k.get("minlength", a[2] if len(a) > 2 else 0))
+    x = Interp._fix_index(x)
+    if not isinstance(x, np.ndarray) or x.ndim != 1 or x.dtype.kind not in "iu":
+        raise it.und("np.bincount of something else than a 1-d integer array", e)
+    if (x < 0).any():
+        raise ModelCrash("np.bincount: negative index", e, it.where)
+    n = max(int(x.max()) + 1 if x.size else 0, ml)
+    if w is None:
+        return np.bincount(x, minlength=ml)
+    if not isinstance(w, np.ndarray) or w.shape != x.shape:
+        raise ModelCrash(f"np.bincount: the weights (shape {getattr(w, 'shape', None)}) and the indices (shape {x.shape}) do not have the same shape", e, it.where)
+    w = _symb(w)
+    out = [sp.Integer(0)] * n
+    for i, v in zip(x, w):
+        out[int(i)] = out[int(i)] + v
+    return oarr(out)
+
+
+def _np_where(it, e, a, k):
+    c = _boolarr(it, e, a[0])
+    if len(a) == 1:
+        return tuple(np.nonzero(c)) if isinstance(c, np.ndarray) else (np.array([0] if c else [], dtype=int),)
+    x, y = a[1], a[2]
+    xs = _symb(x) if isinstance(x, np.ndarray) and x.dtype != bool else x
+    ys = _symb(y) if isinstance(y, np.ndarray) and y.dtype != bool else y
+    return it.nat(e, np.where, c, xs if isinstance(xs, np.ndarray) else sp.sympify(_sym_scalar(xs)), ys if isinstance(ys, np.ndarray) else sp.sympify(_sym_scalar(ys)))
+
+
+def _np_ints(fn, nargs=1):
+    """functions that are modelled for concrete integer / boolean arrays only"""
+    def f(it, e, a, k):
+        xs = []
+        for x in a[:nargs]:
+            if isinstance(x, (tuple, list)):
+                x = np.array([np.asarray(t) for t in x]) if x and isinstance(x[0], np.ndarray) else it.np_array(x, None, e)
+            x = Interp._fix_index(x)
+            if isinstance(x, np.ndarray) and x.dtype == object:
+                return Unknown(f"{fn.__name__} of symbolic values")
+            xs.append(x)
+        kk = {q: (_as_int(v) if q in ("axis",) and v is not None else v) for q, v in k.items()}
+        res = it.nat(e, fn, *xs, *a[nargs:], **kk)
+        if isinstance(res, np.integer):
+            return int(res)
+        if isinstance(res, np.bool_):
+            return bool(res)
+        return res
+    return f
+
+
+def _np_argext(fn):
+    def f(it, e, a, k):
+        x = a[0]
+        if isinstance(x, np.ndarray) and x.dtype == object:
+            try:
+                x = np.array([_as_int(t) for t in x.reshape(-1)], dtype=int).reshape(x.shape)
+            except Undecided:
+                return Unknown(f"{fn.__name__} of symbolic values (data-dependent choice)")
+        ax = k.get("axis", a[1] if len(a) > 1 else None)
+        res = it.nat(e, fn, x, axis=None if ax is None else _as_int(ax))
+        return int(res) if isinstance(res, np.integer) else res
+    return f
+
+
+def _np_repeat(it, e, a, k):
+    x, r = a[0], a[1] if len(a) > 1 else k.get("repeats")
+    ax = k.get("axis", a[2] if len(a) > 2 else None)
+    if not isinstance(x, np.ndarray):
+        x = it.np_array([x], None, e)
+    r = Interp._fix_index(r) if isinstance(r, np.ndarray) else _as_int(r)
+    return it.nat(e, np.repeat, x, r, axis=None if ax is None else _as_int(ax))
+
+
+def _np_tile(it, e, a, k):
+    x, reps = a[0], a[1] if len(a) > 1 else k.get("reps")
+    if not isinstance(x, np.ndarray):
+        x = it.np_array(x if isinstance(x, (list, tuple)) else [x], None, e)
+    reps = tuple(_as_int(r) for r in reps) if isinstance(reps, (tuple, list)) else _as_int(reps)
+    return it.nat(e, np.tile, x, reps)
+
+
+def _np_reshape(it, e, a, k):
+    return it.nd_method(a[0], "reshape", [a[1]], {q: v for q, v in k.items() if q == "order"}, e)
+
+
+def _np_ravel(it, e, a, k):
+    return it.nd_method(a[0], "ravel", a[1:], k, e)
+
+
+def _np_arange(it, e, a, k):
+    vals = [_as_int(x, "np.arange bound") for x in a]
+    return np.arange(*vals, dtype=int)
+
+
+def _np_eye(it, e, a, k):
+    n = _as_int(a[0])
+    return _symb(np.eye(n, dtype=int))
+
+
+def _np_dot(it, e, a, k):
+    return it.binop(ast.MatMult(), a[0], a[1], e)
+
+
+def _np_isin(it, e, a, k):
+    x, y = Interp._fix_index(a[0]), a[1]
+    if isinstance(y, tuple):
+        y = np.concatenate([np.asarray(t).reshape(-1) for t in y]) if y else np.array([], dtype=int)
+    y = Interp._fix_index(y) if isinstance(y, np.ndarray) else np.asarray(y)
+    if getattr(x, "dtype", None) == object or y.dtype == object:
+        return Unknown("np.isin of symbolic values")
+    return np.isin(x, y)
+
+
+NP: dict = {
+    "np.array": lambda it, e, a, k: it.np_array(a[0], a[1] if len(a) > 1 else k.get("dtype"), e),
+    "np.asarray": lambda it, e, a, k: (a[0] if isinstance(a[0], np.ndarray) and k.get("dtype") is None and len(a) == 1 else it.np_array(a[0], a[1] if len(a) > 1 else k.get("dtype"), e)),
+    "np.atleast_1d": lambda it, e, a, k: a[0] if isinstance(a[0], np.ndarray) and a[0].ndim >= 1 else it.np_array([a[0]] if not isinstance(a[0], (list, tuple, np.ndarray)) else a[0], None, e).reshape(-1),
+    "np.zeros": _np_zeros(0), "np.ones": _np_zeros(1), "np.empty": _np_zeros(0),
+    "np.zeros_like": _np_like(0), "np.ones_like": _np_like(1), "np.empty_like": _np_like(0),
+    "np.arange": _np_arange, "np.eye": _np_eye,
+    "np.hstack": _np_cat(np.hstack), "np.vstack": _np_cat(np.vstack), "np.concatenate": _np_cat(np.concatenate), "np.stack": _np_cat(np.stack),
+    "np.tile": _np_tile, "np.repeat": _np_repeat, "np.reshape": _np_reshape, "np.ravel": _np_ravel,
+    "np.transpose": lambda it, e, a, k: a[0].T if isinstance(a[0], np.ndarray) and len(a) == 1 and not k else Unknown("np.transpose with axes"),
+    "np.sum": _np_reduce(np.sum), "np.prod": _np_reduce(np.prod), "np.cumsum": _np_reduce(np.cumsum),
+    "np.max": _np_reduce(np.max, False), "np.min": _np_reduce(np.min, False), "np.amax": _np_reduce(np.max, False), "np.amin": _np_reduce(np.min, False),
+    "np.any": _np_truth(np.any), "np.all": _np_truth(np.all),
+    "np.logical_and": _np_logical(np.logical_and), "np.logical_or": _np_logical(np.logical_or), "np.logical_not": _np_logical(np.logical_not),
+    "np.logical_xor": _np_logical(np.logical_xor),
+    "np.logical_or.reduce": _np_logical_reduce(np.logical_or), "np.logical_and.reduce": _np_logical_reduce(np.logical_and),
+    "np.abs": _np_elementwise(lambda x: sp.Abs(x)), "np.absolute": _np_elementwise(lambda x: sp.Abs(x)), "np.sqrt": _np_elementwise(lambda x: sp.sqrt(x)),
+    "np.power": _np_elementwise(lambda x, p: x ** p), "np.square": _np_elementwise(lambda x: x ** 2),
+    "np.divide": _np_elementwise(lambda x, y: x / y), "np.true_divide": _np_elementwise(lambda x, y: x / y),
+    "np.multiply": _np_elementwise(lambda x, y: x * y), "np.add": _np_elementwise(lambda x, y: x + y),
+    "np.subtract": _np_elementwise(lambda x, y: x - y), "np.negative": _np_elementwise(lambda x: -x), "np.reciprocal": _np_elementwise(lambda x: 1 / x),
+    "np.linalg.norm": _np_norm, "np.bincount": _np_bincount, "np.where": _np_where, "np.dot": _np_dot, "np.isin": _np_isin, "np.in1d": _np_isin,
+    "np.nonzero": lambda it, e, a, k: _np_where(it, e, a[:1], {}),
+    "np.flatnonzero": lambda it, e, a, k: _np_where(it, e, [a[0].reshape(-1)], {})[0],
+    "np.argwhere": lambda it, e, a, k: np.argwhere(_boolarr(it, e, a[0])),
+    "np.argsort": _np_ints(lambda x, **kw: np.argsort(x, kind="stable", **{q: v for q, v in kw.items() if q == "axis"})),
+    "np.sort": _np_ints(np.sort), "np.unique": _np_ints(np.unique), "np.diff": _np_ints(np.diff),
+    "np.array_equal": _np_ints(np.array_equal, 2), "np.setdiff1d": _np_ints(np.setdiff1d, 2), "np.intersect1d": _np_ints(np.intersect1d, 2),
+    "np.union1d": _np_ints(np.union1d, 2), "np.count_nonzero": _np_ints(np.count_nonzero),
+    "np.argmax": _np_argext(np.argmax), "np.argmin": _np_argext(np.argmin),
+    "np.isclose": lambda it, e, a, k: Unknown("np.isclose"), "np.allclose": lambda it, e, a, k: Unknown("np.allclose"),
+    "np.ceil": lambda it, e, a, k: a[0] if isinstance(a[0], (int, sp.Integer)) else Unknown("np.ceil"),
+    "np.squeeze": lambda it, e, a, k: a[0].squeeze(),
+    "np.copy": lambda it, e, a, k: a[0].copy(),
+    "np.delete": lambda it, e, a, k: it.nat(e, np.delete, a[0], Interp._fix_index(a[1]), *( [_as_int(a[2])] if len(a) > 2 else []), **{q: _as_int(v) for q, v in k.items() if q == "axis"}),
+    "np.append": lambda it, e, a, k: it.nat(e, np.concatenate, _arrs(it, e, [np.asarray(a[0]).reshape(-1) if not isinstance(a[0], np.ndarray) else a[0].reshape(-1),
+                                                                        a[1].reshape(-1) if isinstance(a[1], np.ndarray) else a[1]])),
+}
+
+
+# ---- scipy.sparse ------------------------------------------------------------------------------------
+
+def _sp_data(it, e, v):
+    if isinstance(v, (list, tuple)):
+        v = it.np_array(v, None, e)
+    if not isinstance(v, np.ndarray):
+        v = it.np_array([v], None, e)
+    return _symb(v.astype(int) if v.dtype == bool else v)
+
+
+def _sp_make(fmt):
+    def f(it, e, a, k):
+        if not a:
+            raise it.und("sparse constructor without arguments", e)
+        x = a[0]
+        shape = k.get("shape", a[1] if len(a) > 1 and isinstance(a[1], (tuple, list)) else None)
+        if shape is not None:
+            shape = tuple(_as_int(s) for s in shape)
+        if isinstance(x, SpM):
+            return x.to(fmt)
+        if isinstance(x, (tuple, list)) and len(x) == 2 and all(isinstance(t, (int, np.integer, sp.Integer)) for t in x):
+            return SpM.from_entries((int(x[0]), int(x[1])), fmt, [])
+        if fmt == "dia":
+            if not (isinstance(x, tuple) and len(x) == 2):
+                raise it.und("dia matrix from something else than (data, offsets)", e)
+            data, offs = x
+            offs = it.seq(offs, e) if isinstance(offs, (list, tuple, np.ndarray)) else [offs]
+            if [_as_int(o) for o in offs] != [0]:
+                raise it.und("dia matrix with an off-diagonal", e)
+            data = _sp_data(it, e, data)
+            if data.ndim == 2 and data.shape[0] == 1:
+                data = data[0]
+            if data.ndim != 1 or shape is None:
+                raise it.und("dia matrix data / shape", e)
+            n = min(shape[0], shape[1], data.shape[0])
+            d = [data[i] if i < n else sp.Integer(0) for i in range(min(shape))]
+            return SpM(shape, "dia", diag=oarr(d))
+        if isinstance(x, tuple) and len(x) == 2 and isinstance(x[1], (tuple, list)) and len(x[1]) == 2:
+            data = _sp_data(it, e, x[0])
+            r, c = (Interp._fix_index(t if isinstance(t, np.ndarray) else it.np_array(t, None, e)) for t in x[1])
+            if not (data.ndim == r.ndim == c.ndim == 1 and data.shape == r.shape == c.shape):
+                raise ModelCrash(f"sparse constructor: data, rows and columns have shapes {data.shape}, {r.shape}, {c.shape}", e, it.where)
+            if r.dtype.kind not in "iu" or c.dtype.kind not in "iu":
+                raise it.und("sparse constructor with non-integer indices", e)
+            if (r < 0).any() or (c < 0).any():
+                raise ModelCrash("sparse constructor: negative index", e, it.where)
+            if shape is None:
+                shape = (int(r.max()) + 1 if r.size else 0, int(c.max()) + 1 if c.size else 0)
+            try:
+                return SpM.from_entries(shape, fmt, [(int(i), int(j), v) for i, j, v in zip(r, c, data)])
+            except ModelCrash as mc:
+                raise ModelCrash(mc.msg, e, it.where)
+        if isinstance(x, tuple) and len(x) == 3 and fmt in ("csr", "csc"):
+            data = _sp_data(it, e, x[0])
+            ind, ptr = Interp._fix_index(x[1]), Interp._fix_index(x[2])
+            nmaj = len(ptr) - 1
+            if data.shape != ind.shape or (len(ptr) and int(ptr[-1]) != len(ind)):
+                raise ModelCrash(f"compressed constructor: data {data.shape}, indices {ind.shape}, indptr ends at {int(ptr[-1]) if len(ptr) else None}", e, it.where)
+            if shape is None:
+                other = int(ind.max()) + 1 if ind.size else 0
+                shape = (nmaj, other) if fmt == "csr" else (other, nmaj)
+            if (shape[0] if fmt == "csr" else shape[1]) != nmaj:
+                raise ModelCrash(f"compressed constructor: indptr of length {len(ptr)} for shape {shape}", e, it.where)
+            lim = shape[1] if fmt == "csr" else shape[0]
+            if ind.size and (int(ind.max()) >= lim or int(ind.min()) < 0):
+                raise ModelCrash(f"compressed constructor: index {int(ind.max())} out of range for shape {shape}", e, it.where)
+            return SpM(shape, fmt, data=data.copy(), indices=ind.copy(), indptr=ptr.copy())
+        if isinstance(x, (list, np.ndarray)):
+            dense = _sp_data(it, e, x)
+            if dense.ndim == 1:
+                dense = dense.reshape(1, -1)
+            ents = [(i, j, dense[i, j]) for i in range(dense.shape[0]) for j in range(dense.shape[1]) if not (dense[i, j] == 0)]
+            return SpM.from_entries(dense.shape, fmt, ents)
+        raise it.und(f"sparse constructor argument `{u(e)[:60]}`", e)
+    return f
+
+
+def _sp_eye(it, e, a, k):
+    n = _as_int(a[0])
+    m = _as_int(a[1]) if len(a) > 1 and a[1] is not None else _as_int(k["n"]) if k.get("n") is not None else n
+    out = SpM((n, m), "dia", diag=oarr([1] * min(n, m)))
+    return out.to(k["format"]) if k.get("format") else out
+
+
+def _sp_kron(it, e, a, k):
+    A, B = a[0], a[1]
+    if not isinstance(A, SpM):
+        A = _sp_make("coo")(it, e, [A], {})
+    if not isinstance(B, SpM):
+        B = _sp_make("coo")(it, e, [B], {})
+    return kron(A, B, k.get("format", a[2] if len(a) > 2 else None))
+
+
+def _sp_block_diag(it, e, a, k):
+    mats = [m if isinstance(m, SpM) else _sp_make("coo")(it, e, [m], {}) for m in it.seq(a[0], e)]
+    ents, r0, c0 = [], 0, 0
+    for m in mats:
+        ents += [(i + r0, j + c0, v) for i, j, v in m.to("coo").entries()]
+        r0, c0 = r0 + m.shape[0], c0 + m.shape[1]
+    return SpM.from_entries((r0, c0), k.get("format") or "coo", ents)
+
+
+def _sp_diags(it, e, a, k):
+    offs = a[1] if len(a) > 1 else k.get("offsets", 0)
+    if _as_int(offs) != 0:
+        raise it.und("sps.diags with an off-diagonal", e)
+    d = _sp_data(it, e, a[0])
+    out = SpM((len(d), len(d)), "dia", diag=d.copy())
+    return out.to(k["format"]) if k.get("format") else out
+
+
+SPS: dict = {}
+for _f in ("coo", "csr", "csc", "dia"):
+    SPS[f"sps.{_f}_matrix"] = SPS[f"sps.{_f}_array"] = _sp_make(_f)
+SPS.update({"sps.eye": _sp_eye, "sps.identity": _sp_eye, "sps.eye_array": _sp_eye, "sps.kron": _sp_kron, "sps.block_diag": _sp_block_diag, "sps.diags": _sp_diags,
+            "sps.find": lambda it, e, a, k: a[0].find() if isinstance(a[0], SpM) else it.und("sps.find of a non-sparse value", e),
+            "sps.issparse": lambda it, e, a, k: isinstance(a[0], SpM)})
+
+
+# ---- porepy helpers taken as primitives (their own clauses: C21-R2, C35-R9, C35 tables) -----------------
+
+def _p_row_col_data(it, e, a, k):
+    A = a[0]
+    if not isinstance(A, SpM):
+        raise it.und("sparse_array_to_row_col_data of a non-sparse value", e)
+    ents = A.entries()           # coo_matrix(A) keeps the storage order of A
+    if (a[1] if len(a) > 1 else k.get("remove_nz", False)):
+        ents = [t for t in ents if not (t[2] == 0)]
+    return (np.array([t[0] for t in ents], dtype=int), np.array([t[1] for t in ents], dtype=int), oarr([t[2] for t in ents]))
+
+
+def _p_expand_indices_nd(it, e, a, k):
+    ind, nd = Interp._fix_index(a[0]), _as_int(a[1] if len(a) > 1 else k["nd"])
+    order = (a[2] if len(a) > 2 else k.get("order", "F"))
+    if not isinstance(ind, np.ndarray) or ind.dtype.kind not in "iu":
+        raise it.und("expand_indices_nd of a non-integer array", e)
+    if nd == 1:
+        return ind
+    return (nd * ind + np.arange(nd)[:, np.newaxis]).ravel(order)
+
+
+def _p_dense_blocks(fmt):
+    def f(it, e, a, k):
+        data, bs, nb = _sp_data(it, e, a[0]), _as_int(a[1]), _as_int(a[2])
+        if data.ndim != 1 or data.size != bs * bs * nb:
+            raise ModelCrash(f"csx_matrix_from_dense_blocks: {data.size} values for {nb} blocks of size {bs}", e, it.where)
+        ents = []
+        for b in range(nb):
+            for i in range(bs):
+                for j in range(bs):
+                    v = data[(b * bs + i) * bs + j]
+                    ents.append((b * bs + i, b * bs + j, v) if fmt == "csr" else (b * bs + j, b * bs + i, v))
+        return SpM.from_entries((bs * nb, bs * nb), fmt, ents)
+    return f
+
+
+PRIMS: dict = {"sparse_array_to_row_col_data": _p_row_col_data, "expand_indices_nd": _p_expand_indices_nd,
+               "csr_matrix_from_dense_blocks": _p_dense_blocks("csr"), "csc_matrix_from_dense_blocks": _p_dense_blocks("csc")}
+
+
+# ======================================================================================================
+# term normalisation
+# ======================================================================================================
+
+_PRIMES = [3, 5, 7, 11, 13, 17, 19, 23, 29, 31, 37, 41, 43, 47, 53, 59, 61, 67, 71, 73, 79, 83, 89, 97, 101, 103, 107, 109, 113]
+
+
+def bad_number(e) -> bool:
+    e = sp.sympify(e)
+    return e.has(sp.zoo, sp.nan, sp.oo, -sp.oo)
+
+
+def _opaque(e):
+    """denominators (negative powers of sums) and square roots replaced by dummies: identities that are linear in the
+    transmissibilities are then decided by a cheap expansion"""
+    rule = {}
+    for p in e.atoms(sp.Pow):
+        if p.base.is_Add and (p.exp.is_negative or not p.exp.is_Integer):
+            rule[p] = sp.Dummy("q", positive=True) ** (-1 if p.exp.is_negative else 1)
+    return e.xreplace(rule) if rule else e
+
+
+def _pull(e):
+    """common positive factors pulled out of radicands: sqrt(a**2 * x + a**2 * y) -> a * sqrt(x + y)"""
+    rule = {}
+    for p in e.atoms(sp.Pow):
+        if p.base.is_Add and not p.exp.is_Integer:
+            rule[p] = sp.factor_terms(p.base) ** p.exp
+    return e.xreplace(rule) if rule else e
+
+
+def is_zero(e) -> bool:
+    """is the extracted term identically zero?  A non-zero value at an exact rational point refutes it; a normal form equal
+    to 0 proves it; anything else is undecided (never a verdict)."""
+    e = sp.sympify(e)
+    if e == 0:
+        return True
+    if bad_number(e):
+        return False
+    e = _pull(e)
+    if e == 0 or sp.expand(_opaque(e)) == 0:
+        return True
+    syms = sorted(e.free_symbols, key=str)
+    small = 0
+    for trial in range(2):
+        vals = {s_: sp.Rational(_PRIMES[(i * 7 + 11 * trial) % len(_PRIMES)], 2 + trial + (i % 3)) for i, s_ in enumerate(syms)}
+        try:
+            v = e.xreplace(vals)
+            v = v if v.is_Rational else sp.N(v, 40)
+        except (ZeroDivisionError, ValueError, TypeError):
+            continue
+        if bad_number(v) or not v.is_number:
+            continue
+        if abs(v) > sp.Float("1e-25"):
+            return False
+        small += 1
+    if small == 0:
+        raise Undecided(f"cannot evaluate {str(e)[:120]} at any test point")
+    for norm in (lambda t: sp.expand(t.as_numer_denom()[0]), lambda t: sp.cancel(sp.together(t)), sp.radsimp, sp.simplify):
+        try:
+            if norm(e) == 0:
+                return True
+        except (sp.PolynomialError, NotImplementedError, ZeroDivisionError):
+            continue
+    raise Undecided(f"cannot decide whether {str(e)[:160]} vanishes identically (zero at {small} rational points, no normal form found)")
+
+
+# ======================================================================================================
+# C12: interpretation of Tpfa.discretize on the model mesh
+# ======================================================================================================
+
+Q = "Tpfa.discretize"
+KEYS = {"flux": "flux_matrix_key", "bound_flux": "bound_flux_matrix_key", "bpc": "bound_pressure_cell_matrix_key",
+        "bpf": "bound_pressure_face_matrix_key", "vs": "vector_source_matrix_key", "bpvs": "bound_pressure_vector_source_matrix_key"}
+
+# boundary faces of the 2 x 2 model and their class: (bc.is_dir, bc.is_neu, fracture face).  Signs of the faces in cell_faces:
+# 0, 3, 6, 7 point into the domain (-1); 2, 5, 10, 11 out of it (+1).
+TPFA_CLASSES = {0: ("dir", False), 2: ("dir", False), 11: ("dir", False), 3: ("neu", False), 5: ("neu", False),
+                6: ("neu", True), 10: ("neu", True), 7: ("dir", True)}
+
+
+class Run:
+    """matrices stored by one interpretation of the assembly"""
+
+    def __init__(self, mode: str, world: World, mesh: Mesh, stored: dict, vsd: int, crash: Optional[ModelCrash] = None):
+        self.mode, self.w, self.mesh, self.stored, self.vsd, self.crash = mode, world, mesh, stored, vsd, crash
+        self.mats: dict = {}
+
+    def node(self, name: str, fn):
+        return self.w.store_nodes.get(self.w.selfattrs.get(KEYS[name]), fn)
+
+
+def tpfa_world(repo) -> World:
+    w = World(repo, TPFA, "Tpfa", base_inits=[(FVE, "FVElliptic")])
+    for attr in KEYS.values():
+        if not isinstance(w.selfattrs.get(attr), str):
+            raise AnchorError(f"{FVE}: FVElliptic.__init__ does not assign a literal to self.{attr}")
+    for c in ("PARAMETERS", "DISCRETIZATION_MATRICES"):
+        if c not in w.consts:
+            raise AnchorError(f"{CONSTS}: constant {c} not found")
+    if w.method("discretize") is None:
+        raise AnchorError(f"{TPFA}:{Q} not found")
+    return w
+
+
+def interpret_tpfa(repo, mode: str, flags: dict, params: dict, periodic=None) -> Run:
+    w = tpfa_world(repo)
+    mesh = Mesh(2, (2, 2))
+    classes = dict(TPFA_CLASSES)
+    if periodic is not None:
+        for f in np.asarray(periodic).ravel():
+            classes.pop(int(f))
+    sd = mesh.grid(fracture=[f for f, (_, fr) in classes.items() if fr], periodic=periodic)
+    nf = mesh.nf
+    is_dir = np.array([classes.get(f, ("", 0))[0] == "dir" for f in range(nf)])
+    is_neu = np.array([classes.get(f, ("", 0))[0] == "neu" for f in range(nf)])
+    bnd = Obj("boundary condition", dict(is_dir=is_dir, is_neu=is_neu, is_rob=np.zeros(nf, dtype=bool), is_internal=sd.attrs["tags"]["fracture_faces"].copy(),
+                                         num_faces=nf, dim=1, bf=sd.meths["get_all_boundary_faces"]()))
+    tensor = Obj("second order tensor", dict(values=mesh.K.copy(), dim=3))
+    matd: dict = {}
+    pdict = {"second_order_tensor": tensor, "bc": bnd}
+    pdict.update(params)
+    data = {w.consts["PARAMETERS"]: {"kw": pdict}, w.consts["DISCRETIZATION_MATRICES"]: {"kw": matd}}
+    data.update(flags)
+    w.matdict = matd
+    fn = w.method("discretize")
+    run = Run(mode, w, mesh, matd, int(params.get("ambient_dimension", mesh.dim)))
+    run.classes = classes
+    try:
+        Interp(w, {}, 0, Q).invoke(fn, [sd, data], {}, Obj("self", dict(keyword="kw")), fn)
+    except ModelCrash as mc:
+        run.crash = mc
+    return run
+
+
+def _expected_shapes(mesh: Mesh, vsd: int) -> dict:
+    nf, nc = mesh.nf, mesh.nc
+    return {"flux": (nf, nc), "bound_flux": (nf, nf), "bpc": (nf, nc), "bpf": (nf, nf), "vs": (nf, nc * vsd), "bpvs": (nf, nc * vsd)}
+
+
+def check_wellformed(ctx: Ctx, mod, fn, run: Run) -> bool:
+    """R1; returns True when the matrices can be used by the other rules"""
+    if run.crash is not None:
+        mc = run.crash
+        cons = f"{mc.where}: `{u(mc.node)[:110] if mc.node is not None else '?'}` raises on the model mesh"
+        ctx.check("R1", False, mod, Q, mc.node if mc.node is not None else fn,
+                  f"[{run.mode}] interpreting the assembly on the 2 x 2 model mesh (12 faces, 4 cells, 16 half-faces) fails with {mc.msg}: an array is gathered / "
+                  f"scattered with an index of the wrong index space or arrays of different index spaces are combined", construct=cons)
+        return False
+    ok_all = True
+    for name, shape in _expected_shapes(run.mesh, run.vsd).items():
+        key = run.w.selfattrs[KEYS[name]]
+        m = run.stored.get(key)
+        if isinstance(m, Unknown):
+            raise Undecided(f"{TPFA}:{Q}: the matrix stored under self.{KEYS[name]} depends on a value the interpreter does not model ({m.why})")
+        ok = isinstance(m, SpM) and m.shape == shape
+        ctx.check("R1", ok, mod, Q, run.node(name, fn),
+                  f"[{run.mode}] the matrix stored under self.{KEYS[name]} must have shape {shape} on the model mesh; found "
+                  f"{'nothing stored' if m is None else (m.shape if isinstance(m, SpM) else type(m).__name__)}",
+                  construct=f"store under self.{KEYS[name]} [{run.mode}]: shape", facts={"shape": str(getattr(m, 'shape', None))})
+        ok_all = ok_all and ok
+        if ok:
+            d = m.todict()
+            run.mats[name] = d
+            for (i, j), v in d.items():
+                if bad_number(v) and name not in ("bpf",):
+                    ctx.check("R1", False, mod, Q, run.node(name, fn), f"[{run.mode}] entry ({i}, {j}) of the matrix under self.{KEYS[name]} is {v}: division by an exact zero",
+                              construct=f"store under self.{KEYS[name]} [{run.mode}]: division by zero")
+                    ok_all = False
+                    break
+    return ok_all
+
+
+def check_point_grid(ctx: Ctx, mod, fn, repo) -> None:
+    """R1, 0-d shortcut: a point grid (one cell, no faces) must get every key, with zero rows and the column count of the full arm"""
+    w = tpfa_world(repo)
+    nc = 1
+    empty3 = np.empty((3, 0), dtype=object)
+    sd = Obj("grid", dict(dim=0, num_cells=nc, num_faces=0, cell_faces=SpM.from_entries((0, nc), "csc", []), face_normals=empty3.copy(), face_centers=empty3.copy(),
+                          cell_centers=oarr([sp.Symbol(f"XP{i}") for i in range(3)], (3, 1)), face_areas=np.empty(0, dtype=object), cell_volumes=oarr([1]),
+                          tags={k_: np.zeros(0, dtype=bool) for k_ in ("fracture_faces", "tip_faces", "domain_boundary_faces")}),
+             dict(get_all_boundary_faces=lambda: np.array([], dtype=int), get_boundary_faces=lambda: np.array([], dtype=int)))
+    z = np.zeros(0, dtype=bool)
+    bnd = Obj("boundary condition", dict(is_dir=z.copy(), is_neu=z.copy(), is_rob=z.copy(), is_internal=z.copy(), num_faces=0, dim=-1, bf=np.array([], dtype=int)))
+    Kp = np.empty((3, 3, 1), dtype=object)
+    for i in range(3):
+        for j in range(3):
+            Kp[i, j, 0] = sp.Symbol(f"KP{min(i, j)}{max(i, j)}")
+    for amb in (None, 3):
+        matd: dict = {}
+        pdict = {"second_order_tensor": Obj("second order tensor", dict(values=Kp.copy(), dim=3)), "bc": bnd}
+        if amb is not None:
+            pdict["ambient_dimension"] = amb
+        data = {w.consts["PARAMETERS"]: {"kw": pdict}, w.consts["DISCRETIZATION_MATRICES"]: {"kw": matd}}
+        w.matdict = matd
+        try:
+            Interp(w, {}, 0, Q).invoke(fn, [sd, data], {}, Obj("self", dict(keyword="kw")), fn)
+        except ModelCrash as mc:
+            ctx.check("R1", False, mod, Q, mc.node if mc.node is not None else fn, f"[point grid] the assembly fails on a 0-d grid: {mc.msg}",
+                      construct=f"{mc.where}: `{u(mc.node)[:110] if mc.node is not None else '?'}` raises on a point grid")
+            return
+        vsd = max(amb if amb is not None else 0, 1)
+        want = {"flux": (0, nc), "bound_flux": (0, 0), "bpc": (0, nc), "bpf": (0, 0), "vs": (0, nc * vsd), "bpvs": (0, nc * vsd)}
+        for name, shape in want.items():
+            m = matd.get(w.selfattrs[KEYS[name]])
+            ok = isinstance(m, SpM) and m.shape == shape
+            ctx.check("R1", ok, mod, Q, w.store_nodes.get(w.selfattrs[KEYS[name]], fn),
+                      f"[point grid, ambient dimension {amb}] a 0-d grid must get an empty matrix of shape {shape} under self.{KEYS[name]} (every key the full arm stores; "
+                      f"columns as in the full arm); found {'nothing stored' if m is None else getattr(m, 'shape', type(m).__name__)}",
+                      construct=f"store under self.{KEYS[name]} [point grid, ambient dimension {amb}]: shape")
+
+
+# ---- K-orthogonal parametrisations -----------------------------------------------------------------------
+
+def korth_subs(mesh: Mesh, f: int, halves: list, family: str, axis: int, q0: int = 0) -> tuple:
+    """substitution imposing K n_out = alpha d (alpha > 0) on the listed half-faces [(cell, sign)] of face f, with the normal of f along
+    coordinate `axis`.  family A: one full symmetric tensor shared by the cells (the face-to-cell vectors are NOT axis-aligned); family B: a
+    different diagonal tensor per cell.  Returns (substitution, [alpha ...])."""
+    sub: dict = {}
+    alphas = []
+    area = sp.Symbol(f"AREA{q0}", positive=True)
+    n = [area if i == axis else sp.Integer(0) for i in range(3)]
+    for i in range(3):
+        sub[mesh.N[i, f]] = n[i]
+    KA = [[sp.Symbol(f"KA{min(i, j)}{max(i, j)}") for j in range(3)] for i in range(3)]
+    for i in range(3):
+        KA[i][i] = sp.Symbol(f"KA{i}{i}", positive=True)
+    for q, (c, s) in enumerate(halves):
+        al = sp.Symbol(f"alpha{q + q0}", positive=True)
+        alphas.append(al)
+        Kc = KA if family == "A" else [[(sp.Symbol(f"KD{i}_{c}", positive=True) if i == j else sp.Integer(0)) for j in range(3)] for i in range(3)]
+        for i in range(3):
+            for j in range(3):
+                sub[mesh.K[i, j, c]] = Kc[i][j]
+            sub[mesh.XC[i, c]] = mesh.XF[i, f] - s * Kc[i][axis] * area / al
+    return sub, alphas
+
+
+FAMILY_TXT = {"A": "constant symmetric K (linear exactness)", "B": "diagonal K per cell, Cartesian geometry (agreement with MPFA, M-matrix signs)"}
+
+
+def _axes(ctx: Ctx, f: int, fam: str):
+    """coordinate axes along which the normal of face f is laid: all three in the thorough tier, one (varying with the face and the family) otherwise"""
+    return range(3) if ctx.tier == "thorough" else ((f + (0 if fam == "A" else 1)) % 3,)
+
+
+def _sub(v, sub):
+    return sp.sympify(v).xreplace(sub)
+
+
+def _short(v) -> str:
+    s = str(v)
+    return s if len(s) <= 140 else s[:137] + "..."
+
+
+def _cls(run: Run, f: int) -> str:
+    if f not in run.classes:
+        return "periodic" if f in getattr(run, "pairs", {}) else "interior"
+    kind, frac = run.classes[f]
+    return ("internal boundary tagged " if frac else "") + {"dir": "Dirichlet", "neu": "Neumann"}[kind]
+
+
+def check_two_point(ctx: Ctx, mod, fn, run: Run) -> None:
+    """R2"""
+    mesh, F, B = run.mesh, run.mats["flux"], run.mats["bound_flux"]
+    for f in mesh.interior:
+        halves = mesh.cells_of[f]
+        for fam in ("A", "B"):
+            found = None
+            for axis in _axes(ctx, f, fam):
+                sub, (a1, a2) = korth_subs(mesh, f, halves, fam, axis)
+                T = a1 * a2 / (a1 + a2)
+                for (c, s) in halves:
+                    val = _sub(F.get((f, c), 0), sub)
+                    if found is None and not is_zero(val - s * T):
+                        found = f"normal along axis {axis}: flux[{f},{c}] = {_short(sp.factor_terms(val))} instead of {s} * a1 a2/(a1 + a2)"
+            ctx.check("R2", found is None, mod, Q, run.node("flux", fn),
+                      f"[{run.mode}] interior face {f}: with K n_out = alpha_i d_i on both half-faces ({FAMILY_TXT[fam]}) the flux entries must be sign * a1 a2 / (a1 + a2) "
+                      f"(half transmissibility n.K.d/|d|^2 resp. |nK|/|d|, harmonic mean keyed by the face, sign of cell_faces)" + (f"; {found}" if found else ""),
+                      construct=f"flux: interior face, K-orthogonal family {fam} [{run.mode}] face {f}", facts={"found": found})
+    for f, (kind, frac) in sorted(run.classes.items()):
+        if kind != "dir" or frac:
+            continue
+        (c, s), = mesh.cells_of[f]
+        for fam in ("A", "B"):
+            found = None
+            for axis in _axes(ctx, f, fam):
+                sub, (a1,) = korth_subs(mesh, f, [(c, s)], fam, axis)
+                v1, v2 = _sub(F.get((f, c), 0), sub), _sub(B.get((f, f), 0), sub)
+                if found is None and not (is_zero(v1 - s * a1) and is_zero(v2 + s * a1)):
+                    found = f"normal along axis {axis}: flux[{f},{c}] = {_short(v1)}, bound_flux[{f},{f}] = {_short(v2)} instead of {s} * alpha, {-s} * alpha"
+            ctx.check("R2", found is None, mod, Q, run.node("flux", fn),
+                      f"[{run.mode}] Dirichlet face {f} (sign {s}): with K n_out = alpha d ({FAMILY_TXT[fam]}) the flux entry must be sign * alpha and the bound_flux entry "
+                      f"-sign * alpha" + (f"; {found}" if found else ""),
+                      construct=f"flux / bound_flux: Dirichlet face, K-orthogonal family {fam} [{run.mode}] face {f}", facts={"found": found})
+
+
+def check_conservation(ctx: Ctx, mod, fn, run: Run, rule: str = "R3") -> None:
+    """R3"""
+    mesh, F, B = run.mesh, run.mats["flux"], run.mats["bound_flux"]
+    rows: dict = {}
+    for (i, j), v in F.items():
+        if not is_zero(v):
+            rows.setdefault(i, {})[j] = v
+    pairs = getattr(run, "pairs", {})
+    for f in range(mesh.nf):
+        own = {c for c, _ in mesh.cells_of[f]}
+        allowed = own | ({c for c, _ in mesh.cells_of[pairs[f]]} if f in pairs else set())
+        supp = set(rows.get(f, {}))
+        two = len(allowed) == 2
+        ok = (supp == allowed and is_zero(sum(rows[f].values()))) if two else supp <= allowed
+        ctx.check(rule, ok, mod, Q, run.node("flux", fn),
+                  f"[{run.mode}] row {f} of the flux matrix couples cells {sorted(supp)}; "
+                  + ((f"an interior (or periodic) face must couple exactly its two cells {sorted(allowed)} with entries summing to zero"
+                      + ("" if ok else f" (sum = {_short(sp.factor_terms(sum(rows.get(f, {}).values(), sp.Integer(0))))})")) if two
+                     else f"a boundary face may only couple its own cell {sorted(allowed)}"),
+                  construct=f"flux: row support and antisymmetry [{run.mode}] face {f}")
+    # symmetry of div @ flux with div = cell_faces^T of the model (each periodic face has its own row)
+    A: dict = {}
+    for f, c, s in mesh.half:
+        for c2, v in rows.get(f, {}).items():
+            A[(c, c2)] = A.get((c, c2), sp.Integer(0)) + s * v
+    for c1 in range(mesh.nc):
+        for c2 in range(c1 + 1, mesh.nc):
+            a, b = A.get((c1, c2), sp.Integer(0)), A.get((c2, c1), sp.Integer(0))
+            if a == 0 and b == 0:
+                continue
+            ok = is_zero(a - b)
+            ctx.check(rule, ok, mod, Q, run.node("flux", fn),
+                      f"[{run.mode}] div @ flux must be symmetric: entry ({c1},{c2}) - entry ({c2},{c1})" + ("" if ok else f" = {_short(sp.factor_terms(a - b))}"),
+                      construct=f"div @ flux symmetric [{run.mode}] cells {c1},{c2}")
+    bset = set(run.classes)
+    bad = [(i, j) for (i, j), v in B.items() if (i != j or i not in bset) and not is_zero(v)]
+    ctx.check(rule, not bad, mod, Q, run.node("bound_flux", fn),
+              f"[{run.mode}] bound_flux must be diagonal and supported on boundary faces" + (f"; other non-zero entries at {bad[:6]}" if bad else ""),
+              construct=f"bound_flux: diagonal on boundary faces [{run.mode}]")
+
+
+def check_constant_state(ctx: Ctx, mod, fn, run: Run, rule: str = "R4") -> None:
+    """R4"""
+    mesh, F, B = run.mesh, run.mats["flux"], run.mats["bound_flux"]
+    dirf = [f for f, (kind, frac) in run.classes.items() if kind == "dir" and not frac]
+    for f in range(mesh.nf):
+        tot = sum((v for (i, j), v in F.items() if i == f), sp.Integer(0)) + sum((B.get((f, g), sp.Integer(0)) for g in dirf), sp.Integer(0))
+        ok = is_zero(tot)
+        ctx.check(rule, ok, mod, Q, run.node("bound_flux" if f in run.classes else "flux", fn),
+                  f"[{run.mode}] face {f} ({_cls(run, f)}): a constant pressure with matching Dirichlet data must give zero flux (flux @ 1 + bound_flux @ 1_Dirichlet)"
+                  + ("" if ok else f"; found {_short(sp.factor_terms(tot))}"), construct=f"constant state: zero flux [{run.mode}] face {f} ({_cls(run, f)})")
+    for f, (kind, frac) in sorted(run.classes.items()):
+        if kind == "dir" and not frac:
+            continue
+        (c, s), = mesh.cells_of[f]
+        row0 = all(is_zero(v) for (i, j), v in F.items() if i == f)
+        bf = B.get((f, f), sp.Integer(0))
+        ok = row0 and is_zero(bf - s)
+        ctx.check(rule, ok, mod, Q, run.node("bound_flux", fn),
+                  f"[{run.mode}] face {f} ({_cls(run, f)}, sign {s} in cell_faces): a Neumann / internal-boundary face must have a zero flux row and bound_flux = sign of the "
+                  f"face = {s} (the datum is the flux out of the domain)" + ("" if ok else f"; found a {'zero' if row0 else 'non-zero'} row and bound_flux = {_short(bf)}"),
+                  construct=f"Neumann face: zero row and bound_flux = sign [{run.mode}] face {f} ({_cls(run, f)})")
+
+
+def check_trace(ctx: Ctx, mod, fn, run: Run) -> None:
+    """R5"""
+    mesh, C, Fm = run.mesh, run.mats["bpc"], run.mats["bpf"]
+    dirf = [f for f, (kind, frac) in run.classes.items() if kind == "dir" and not frac]
+    for f, (kind, frac) in sorted(run.classes.items()):
+        (c, s), = mesh.cells_of[f]
+        if kind == "dir" and frac:
+            ctx.note(f"C12-R5 [{run.mode}] face {f}: internal boundary tagged Dirichlet - the flux part treats it as Neumann, the pressure-trace part "
+                     f"reads bc.is_dir / bc.is_neu directly (bound_pressure_face = {Fm.get((f, f), 0)}, bound_pressure_cell = {C.get((f, c), 0)}); not judged")
+            continue
+        diag = sp.sympify(Fm.get((f, f), sp.Integer(0)))
+        if bad_number(diag):
+            ctx.check("R5", False, mod, Q, run.node("bpf", fn),
+                      f"[{run.mode}] face {f} ({_cls(run, f)}): bound_pressure_face entry is {diag}: the reciprocal is taken of the transmissibility AFTER the Neumann rows "
+                      f"were zeroed in place (the saved copy is an alias or is taken too late)", construct=f"pressure trace: reciprocal of a zeroed transmissibility [{run.mode}] face {f}")
+            continue
+        tot = sum((v for (i, j), v in C.items() if i == f), sp.Integer(0)) + sum((Fm.get((f, g), sp.Integer(0)) for g in dirf), sp.Integer(0))
+        ok = is_zero(tot - 1)
+        ctx.check("R5", ok, mod, Q, run.node("bpc", fn),
+                  f"[{run.mode}] face {f} ({_cls(run, f)}): the reconstructed boundary pressure of a constant state must be that constant "
+                  f"(bound_pressure_cell @ 1 + bound_pressure_face @ 1_Dirichlet = 1)" + ("" if ok else f"; found {_short(tot)}"),
+                  construct=f"pressure trace: constant state [{run.mode}] face {f} ({_cls(run, f)})")
+        if kind == "neu":
+            found = None
+            others = [(i, j) for (i, j), w_ in list(C.items()) + list(Fm.items()) if i == f and j not in (c, f) and not is_zero(w_)]
+            if others or not is_zero(sp.sympify(C.get((f, c), 0)) - 1):
+                found = f"bound_pressure_cell[{f},{c}] = {_short(C.get((f, c), 0))}, other entries {others[:4]}"
+            for axis in _axes(ctx, f, "A"):
+                sub, (a1,) = korth_subs(mesh, f, [(c, s)], "A", axis)
+                v = _sub(diag, sub)
+                if found is None and not is_zero(v + 1 / a1):
+                    found = f"normal along axis {axis}: bound_pressure_face[{f},{f}] = {_short(v)} instead of -1/alpha"
+            ctx.check("R5", found is None, mod, Q, run.node("bpf", fn),
+                      f"[{run.mode}] Neumann face {f}: p_face = p_cell - g / t_half, i.e. bound_pressure_cell = 1 at the cell and bound_pressure_face = -1 / alpha under "
+                      f"K n_out = alpha d, t_half being the transmissibility before the Neumann rows were zeroed" + (f"; {found}" if found else ""),
+                      construct=f"pressure trace: Neumann face inverts the half-face law [{run.mode}] face {f}")
+
+
+def check_hydrostatic(ctx: Ctx, mod, fn, run: Run) -> None:
+    """R6"""
+    mesh, vsd = run.mesh, run.vsd
+    F, B, C, Fm, VS, PVS = (run.mats[k_] for k_ in ("flux", "bound_flux", "bpc", "bpf", "vs", "bpvs"))
+    G = [sp.Symbol(f"G{k_}") for k_ in range(vsd)]
+    pc = [sum(G[k_] * mesh.XC[k_, c] for k_ in range(vsd)) for c in range(mesh.nc)]
+    pf = [sum(G[k_] * mesh.XF[k_, f] for k_ in range(vsd)) for f in range(mesh.nf)]
+    dirf = [f for f, (kind, frac) in run.classes.items() if kind == "dir" and not frac]
+
+    def apply(M, MB, MV, f):
+        tot = sp.Integer(0)
+        for (i, j), v in M.items():
+            if i == f:
+                tot += v * pc[j]
+        for g in dirf:
+            tot += MB.get((f, g), sp.Integer(0)) * pf[g]
+        for (i, j), v in MV.items():
+            if i == f:
+                tot += v * G[j % vsd]
+        return tot
+
+    for f in range(mesh.nf):
+        tot = apply(F, B, VS, f)
+        ok = is_zero(tot)
+        ctx.check("R6", ok, mod, Q, run.node("vs", fn),
+                  f"[{run.mode}] face {f} ({_cls(run, f)}): the hydrostatic state p = G.x with vector source G must give zero flux "
+                  f"(flux @ p + bound_flux @ p_Dirichlet + vector_source @ G; sign, face-to-cell vector and the cell-major expansion of rows / columns must agree)"
+                  + ("" if ok else f"; found {_short(sp.factor_terms(tot))}"), construct=f"hydrostatic state: zero flux [{run.mode}] face {f} ({_cls(run, f)})")
+    for f, (kind, frac) in sorted(run.classes.items()):
+        if (kind == "dir" and frac) or bad_number(sp.sympify(Fm.get((f, f), 0))):
+            continue
+        tot = apply(C, Fm, PVS, f) - pf[f]
+        ok = is_zero(tot)
+        ctx.check("R6", ok, mod, Q, run.node("bpvs", fn),
+                  f"[{run.mode}] face {f} ({_cls(run, f)}): the reconstructed boundary pressure of the hydrostatic state must be G.x_face"
+                  + ("" if ok else f"; the difference is {_short(sp.factor_terms(tot))}"), construct=f"hydrostatic state: pressure trace [{run.mode}] face {f} ({_cls(run, f)})")
+
+
+# ---- periodic pairs (deprecated branch; armed only while the function still reads periodic_face_map) ----------------
+
+PERIODIC = [[6, 7], [10, 11]]     # bottom faces (sign -1) paired with top faces (sign +1) of the 2 x 2 model
+
+
+def check_periodic(ctx: Ctx, mod, fn, repo) -> None:
+    """R7"""
+    run = interpret_tpfa(repo, "periodic", {}, {}, periodic=PERIODIC)
+    run.pairs = {}
+    for l, r in zip(*PERIODIC):
+        run.pairs[l], run.pairs[r] = r, l
+    if run.crash is not None:
+        mc = run.crash
+        ctx.check("R7", False, mod, Q, mc.node if mc.node is not None else fn, f"[periodic] the assembly fails on the model mesh with two periodic pairs: {mc.msg}",
+                  construct=f"{mc.where}: `{u(mc.node)[:110] if mc.node is not None else '?'}` raises on the periodic model mesh")
+        return
+    key = run.w.selfattrs[KEYS["flux"]]
+    m = run.stored.get(key)
+    if not isinstance(m, SpM) or m.shape != (run.mesh.nf, run.mesh.nc):
+        ctx.check("R7", False, mod, Q, fn, "[periodic] flux matrix missing or of the wrong shape", construct="periodic: flux matrix shape")
+        return
+    run.mats["flux"] = m.todict()
+    bf = run.stored.get(run.w.selfattrs[KEYS["bound_flux"]])
+    run.mats["bound_flux"] = bf.todict() if isinstance(bf, SpM) else {}
+    check_conservation(ctx, mod, fn, run, "R7")
+    check_constant_state(ctx, mod, fn, run, "R7")
+    mesh, F = run.mesh, run.mats["flux"]
+    for l, r in zip(*PERIODIC):
+        (cl, sl), = mesh.cells_of[l]
+        (cr, sr), = mesh.cells_of[r]
+        found = None
+        for fam in ("A", "B"):
+            for axis in _axes(ctx, l, fam):
+                sub, (a1,) = korth_subs(mesh, l, [(cl, sl)], fam, axis, 0)
+                sub2, (a2,) = korth_subs(mesh, r, [(cr, sr)], fam, axis, 1)
+                sub.update(sub2)
+                T = a1 * a2 / (a1 + a2)
+                for (row, col, want) in ((l, cl, sl * T), (l, cr, -sl * T), (r, cr, sr * T), (r, cl, -sr * T)):
+                    val = _sub(F.get((row, col), 0), sub)
+                    if found is None and not is_zero(val - want):
+                        found = f"family {fam}, axis {axis}: flux[{row},{col}] = {_short(val)} instead of {_short(want)}"
+        ctx.check("R7", found is None, mod, Q, run.node("flux", fn),
+                  f"[periodic] pair ({l}, {r}): the two faces act as one interior face - own cell +sign * T, the cell of the partner face -sign * T, T the harmonic mean "
+                  f"of the two half transmissibilities (each computed with its own face and cell)" + (f"; {found}" if found else ""),
+                  construct=f"periodic pair ({l}, {r}): coupling and transmissibility")
+
+
+# ======================================================================================================
+# driver
+# ======================================================================================================
+
+MODES = [("standard", {}, {}), ("Aavatsmark", {"Aavatsmark_transmissibilities": True}, {}), ("ambient dimension 3", {}, {"ambient_dimension": 3})]
+
+
+def run(ctx: Ctx) -> None:
+    repo = ctx.repo
+    w0 = tpfa_world(repo)
+    mod = w0.mod
+    fn = w0.method("discretize")
+    reads_flag = any(isinstance(n, ast.Constant) and n.value == "Aavatsmark_transmissibilities" for n in ast.walk(w0.cls))
+    reads_amb = any(isinstance(n, ast.Constant) and n.value == "ambient_dimension" for n in ast.walk(w0.cls))
+    for mode, flags, params in MODES:
+        if mode == "Aavatsmark" and not reads_flag:
+            ctx.note("the Aavatsmark variant is no longer read by Tpfa: mode skipped")
+            continue
+        if mode.startswith("ambient") and not reads_amb:
+            continue
+        if mode.startswith("ambient") and ctx.tier != "thorough":
+            continue
+        r = interpret_tpfa(repo, mode, flags, params)
+        if not check_wellformed(ctx, mod, fn, r):
+            continue
+        if mode != "ambient dimension 3":
+            check_two_point(ctx, mod, fn, r)
+            check_constant_state(ctx, mod, fn, r)
+            check_trace(ctx, mod, fn, r)
+        if mode == "standard" or ctx.tier == "thorough":
+            check_conservation(ctx, mod, fn, r)
+        if mode != "Aavatsmark":
+            check_hydrostatic(ctx, mod, fn, r)
+        if mode == "standard":
+            (c, s), = r.mesh.cells_of[0]
+            ctx.sample({"rule": "R2", "mode": mode, "flux[1,0]": _short(r.mats["flux"].get((1, 0))), "bound_flux[0,0]": _short(r.mats["bound_flux"].get((0, 0))),
+                        "steps": r.w.steps})
+    check_point_grid(ctx, mod, fn, repo)
+    if any(isinstance(n, ast.Constant) and n.value == "periodic_face_map" for n in ast.walk(w0.cls)):
+        check_periodic(ctx, mod, fn, repo)
+    else:
+        ctx.note("Tpfa no longer reads periodic_face_map: R7 not armed")
+
+
+META = {
+    "explanation": __doc__,
+    "rule_text": "one obligation per (mode, stored matrix) | (mode, face, K-orthogonal family) | (mode, face row) | (mode, cell pair) | (mode, face, state)",
+    "trusted_base": ["python ast", "sa.core (loader, astutil, report)",
+                     "the rule's interpreter for the numpy / scipy.sparse subset used by the assembly (object arrays of sympy terms carry the values; index, "
+                     "boolean and shape behaviour is numpy's own): array, zeros, ones, arange, hstack/vstack/concatenate, tile, repeat, ravel/reshape(order), "
+                     "argsort, array_equal, sum, power, divide, abs, linalg.norm (2-norm), bincount(weights, minlength), logical_*, any/all, where, isin; "
+                     "coo/csr/csc/dia constructors, tocsr/tocsc, .data/.indices/.indptr, row slicing, @, +, -, kron, eye, find, diagonal",
+                     "sympy expand / cancel / radsimp / simplify as term normaliser; exact rational evaluation as refutation only",
+                     "sparse_array_to_row_col_data(A) returns (row, col, data) of A in storage order (C21-R2); expand_indices_nd numbers nd*index + component "
+                     "(C35-R9); cell_faces[f, c] = +1 iff the normal of f points out of c (C17, C21)",
+                     "matrix keys are the literals FVElliptic.__init__ assigns to self.*_matrix_key"],
+    "assumptions": ["the assembly is local per half-face, so the 2 x 2 incidence pattern with every face class stands for all grids (argument, not verdict)",
+                    "bc flags are one-hot (C39); cell_faces of a boundary face has one entry, of an interior face two of opposite sign (C21)",
+                    "K is symmetric (SecondOrderTensor); Neumann data is the flux out of the domain; vector unknowns are numbered cell-major (C21-R4)"],
+    "accepted_forms": ["any rewrite inside the modelled numpy/scipy subset: renamed locals, temporaries, reordered statements, in-place vs rebinding updates, "
+                       "keyword vs positional arguments, loops / comprehensions over concrete ranges",
+                       "private helpers of Tpfa, module-level functions and nested functions of tpfa.py are interpreted with their arguments bound (depth <= 6)",
+                       "early returns and swapped if-arms whose test is concrete on the model (sd.dim, hasattr, data.get flags, emptiness)",
+                       "sps.find / tocoo / .row/.col instead of sparse_array_to_row_col_data; signs_and_cells_of_boundary_faces instead of the .data/.indices idiom",
+                       "anything outside the subset, a reached raise, or a branch on symbolic data: exit 2 (undecided), never a finding"],
+    "technique": "abstract interpretation of the assembly over a symbolic model mesh (extracted-formula identities; sympy as term normaliser)",
+    "level_note": "Decides, for the model incidence pattern and ALL geometries / tensors on it: well-formedness, two-point consistency under K-orthogonality, "
+                  "symmetry and conservation structure, the constant and hydrostatic equilibrium identities, the pressure trace.  Not decided: numerical "
+                  "behaviour on a concrete grid, M-matrix property off K-orthogonal grids, agreement with the MPFA code, other incidence patterns.",
+}
+MIN_INSTANCES = {"R1": 24, "R2": 28, "R3": 17, "R4": 34, "R5": 22, "R6": 19, "R7": 33}
+
+
+def _m(name, old, new, rule, control=False, count=1, accept_undecided=False):
+    return dict(name=name, file=TPFA, old=old, new=new, rule=rule, control=control, count=count, accept_undecided=accept_undecided)
+
+
+MUTANTS = [
+    # ---- index spaces of the half-face triple
+    _m("perm-gathered-with-face-index", "perm = k.values[::, ::, ci]", "perm = k.values[::, ::, fi]", "R1", control=True),
+    _m("normals-gathered-with-cell-index", "n = sd.face_normals[:, fi]", "n = sd.face_normals[:, ci]", "R2"),
+    _m("face-centres-gathered-with-cell-index", "fc_cc = sd.face_centers[::, fi] - sd.cell_centers[::, ci]", "fc_cc = sd.face_centers[::, ci] - sd.cell_centers[::, ci]", "R2"),
+    _m("bincount-over-cell-index", "t = 1 / np.bincount(fi_periodic, weights=1 / t_face)", "t = 1 / np.bincount(ci_periodic, weights=1 / t_face)", "R1"),
+    # ---- half transmissibility and averaging
+    _m("normal-not-oriented", "        n *= sgn\n", "", "R2"),
+    _m("distance-not-squared", "dist_face_cell = np.power(fc_cc, 2).sum(axis=0)", "dist_face_cell = np.sqrt(np.power(fc_cc, 2).sum(axis=0))", "R2"),
+    _m("arithmetic-mean", "t = 1 / np.bincount(fi_periodic, weights=1 / t_face)", "t = np.bincount(fi_periodic, weights=t_face) / np.bincount(fi_periodic)", "R2", control=True),
+    _m("harmonic-mean-outer-reciprocal-dropped", "t = 1 / np.bincount(fi_periodic, weights=1 / t_face)", "t = np.bincount(fi_periodic, weights=1 / t_face)", "R2"),
+    _m("aavatsmark-mixes-squared-distance", "            dist_face_cell = np.linalg.norm(fc_cc, 2, axis=0)\n", "            dist_face_cell = np.power(fc_cc, 2).sum(axis=0)\n", "R2"),
+    _m("tensor-contracted-with-distance-only", "        nk = perm * n\n", "        nk = perm * fc_cc\n", "R2"),
+    # ---- flux matrix: sign and pairing
+    _m("flux-entries-without-sign", "(t[fi_periodic] * sgn_periodic, (fi_periodic, ci_periodic))\n        ).tocsr()", "(t[fi_periodic], (fi_periodic, ci_periodic))\n        ).tocsr()", "R3"),
+    _m("flux-sign-flipped", "(t[fi_periodic] * sgn_periodic, (fi_periodic, ci_periodic))\n        ).tocsr()", "(-t[fi_periodic] * sgn_periodic, (fi_periodic, ci_periodic))\n        ).tocsr()", "R2"),
+    # ---- boundary algebra
+    _m("dirichlet-bound-flux-sign", "t_b[is_dir] = -t[is_dir]", "t_b[is_dir] = t[is_dir]", "R4"),
+    _m("neumann-bound-flux-sign", "t_b[is_neu] = 1\n", "t_b[is_neu] = -1\n", "R4"),
+    _m("neumann-rows-not-zeroed", "        t[is_neu] = 0\n", "", "R4"),
+    _m("internal-boundaries-not-neumann", "is_neu = np.logical_or(bnd.is_neu, bnd.is_internal)", "is_neu = bnd.is_neu", "R4"),
+    _m("boundary-faces-without-internal-boundaries", "bndr_ind = sd.get_all_boundary_faces()", "bndr_ind = sd.get_boundary_faces()", "R4"),
+    _m("boundary-signs-not-sorted-to-face-order", "bndr_sgn = bndr_sgn[sort_id]", "bndr_sgn = bndr_sgn[np.argsort(sort_id)]", "R4"),
+    _m("boundary-signs-unsorted", "        bndr_sgn = bndr_sgn[sort_id]\n", "", "R4"),
+    _m("dirichlet-zeroed-instead-of-neumann", "        t[is_neu] = 0\n", "        t[is_dir] = 0\n", "R4"),
+    # ---- pressure trace
+    _m("t-full-aliases-t", "t_full = t.copy()", "t_full = t", "R5"),
+    dict(name="t-full-saved-after-zeroing", rule="R5", control=False, file=TPFA, old="", new="", edits=[
+        dict(file=TPFA, old="        t_full = t.copy()\n", new="", count=1),
+        dict(file=TPFA, old="        t[is_neu] = 0\n", new="        t[is_neu] = 0\n        t_full = t.copy()\n", count=1)]),
+    _m("neumann-trace-sign", "v_face[bnd.is_neu] = -1 / t_full[bnd.is_neu]", "v_face[bnd.is_neu] = 1 / t_full[bnd.is_neu]", "R5"),
+    _m("trace-cell-mask-by-cell-index", "v_cell[bnd.is_neu[fi]] = 1", "v_cell[bnd.is_neu[ci]] = 1", "*"),
+    _m("trace-dirichlet-face-dropped", "        v_face[bnd.is_dir] = 1\n", "", "R5"),
+    _m("point-grid-vector-source-columns", "            matrix_dictionary[self.vector_source_matrix_key] = sps.csr_matrix(\n                (0, sd.num_cells * max(vector_source_dim, 1))\n            )",
+       "            matrix_dictionary[self.vector_source_matrix_key] = sps.csr_matrix(\n                (0, sd.num_cells)\n            )", "R1"),
+    _m("trace-matrices-swapped-on-store", "matrix_dictionary[self.bound_pressure_cell_matrix_key] = bound_pressure_cell\n        matrix_dictionary[self.bound_pressure_face_matrix_key] = bound_pressure_face",
+       "matrix_dictionary[self.bound_pressure_cell_matrix_key] = bound_pressure_face\n        matrix_dictionary[self.bound_pressure_face_matrix_key] = bound_pressure_cell", "R1"),
+    # ---- vector source
+    _m("vector-source-rows-component-major", 'rows = np.tile(fi_periodic, (vector_source_dim, 1)).ravel("F")', 'rows = np.tile(fi_periodic, (vector_source_dim, 1)).ravel("C")', "R6"),
+    _m("vector-source-values-component-major", '[:vector_source_dim].ravel("f")', '[:vector_source_dim].ravel("c")', "R6"),
+    _m("vector-source-without-sign", "vals = (t[fi_periodic] * fc_cc * sgn_periodic)[:vector_source_dim]", "vals = (t[fi_periodic] * fc_cc)[:vector_source_dim]", "R6"),
+    _m("vector-source-columns-by-face", "cols = pp.array_operations.expand_indices_nd(ci_periodic, vector_source_dim)", "cols = pp.array_operations.expand_indices_nd(fi_periodic, vector_source_dim)", "*"),
+    _m("trace-vector-source-sign", "vals[:, bnd.is_neu[fi]] = fc_cc[:vector_source_dim, bnd.is_neu[fi]]", "vals[:, bnd.is_neu[fi]] = -fc_cc[:vector_source_dim, bnd.is_neu[fi]]", "R6"),
+    # ---- periodic pairs
+    _m("periodic-left-cells-with-left-faces", "ci_periodic = np.hstack((ci_g, ci_right, ci_left))", "ci_periodic = np.hstack((ci_g, ci_left, ci_right))", "R7"),
+    _m("periodic-sign-not-negated", "sgn_periodic = np.hstack((sgn_g, -left_sgn, -right_sgn))", "sgn_periodic = np.hstack((sgn_g, left_sgn, right_sgn))", "R7"),
+    _m("periodic-transmissibility-wrong-face", "fi = np.hstack((fi_g, fi_right, fi_left))", "fi = np.hstack((fi_g, fi_left, fi_right))", "R7"),
+]
